@@ -1,4 +1,5 @@
 import OW.Props.C06
+import OW.Proofs.HotStartStateless
 /-!
 C14 — model results are a pure, causal function of parameters, states and inputs.
 
@@ -7,25 +8,1574 @@ there is no object or package state in the model, so "same arguments ⇒ same re
 (`run_deterministic`). That this describes the CODE is what the KHIST correspondence checks: every Run of a history
 of real runs (same object again, fresh object, other models in between) must equal this history-free function.
 
-Causality: outputs up to timestep `t` do not depend on inputs after `t` — for every kernel with `HotStart`
-(C06), by `causal_of_hotStart`; instances below.
+Causality: outputs up to timestep `t` do not depend on inputs after `t`. `causal_<M> : Causal M.model` for EVERY
+catalogue model (41), proved directly from the loop structure, over any `Num α` (hence also for the `Float` instance):
+whenever the run over a whole period and the run over its first `n₁` steps both succeed, the first `n₁` outputs of the
+whole run are the outputs of the truncated run, whatever the later inputs are (`Causal.change`: two continuations of the
+same first part agree on the first `n₁` outputs). Summary: `causal_catalogue`.
+
+Stateless kernels also satisfy hot-start continuity trivially (`hotstart_<M>`, empty state row), except DateGenerator
+(no state: every call starts again at the start date of its parameters). Summary for C06/C14: `hotstart_catalogue`.
 -/
+set_option linter.unusedSimpArgs false
+set_option linter.unusedVariables false
 namespace OW.Props.C14
-open OW OW.Kernels
+open OW OW.Kernels OW.Proofs.Stateless
 
 variable {α : Type} [Num α]
 
+omit [Num α] in
 /-- Purity of the model: equal parameters, states and inputs give equal outputs and final states. -/
 theorem run_deterministic (km : KModel α) (p p' : List α) (ins ins' : List (List α)) (st st' : List α)
     (hp : p = p') (hi : ins = ins') (hs : st = st') : km.run p ins st = km.run p' ins' st' := by
   subst hp; subst hi; subst hs; rfl
 
-/-- Causality for Muskingum: truncating or changing the inputs after step `n₁` leaves the first `n₁` outflows unchanged. -/
-theorem causal_Muskingum (p : List α) (a b : List (List α)) (st : List α) (n₁ n₂ : Nat) (o₁ o₂ : KOut α)
+/-- Causality for Muskingum in the split form (corollary of hot-start continuity): if both parts of a split run succeed,
+the whole run succeeds and its first `n₁` outflows are those of the first part. -/
+theorem causal_Muskingum_of_hotStart (p : List α) (a b : List (List α)) (st : List α) (n₁ n₂ : Nat) (o₁ o₂ : KOut α)
     (hl : a.length = b.length) (ha : AllLen n₁ a) (hb : AllLen n₂ b)
     (h₁ : (Muskingum.model (α := α)).run p a st = .ok o₁) (h₂ : (Muskingum.model (α := α)).run p b o₁.states = .ok o₂)
     (hout : AllLen n₁ o₁.outputs) (hlen : o₁.outputs.length = o₂.outputs.length) :
     ∃ o, (Muskingum.model (α := α)).run p (catSeries a b) st = .ok o ∧ o.outputs.map (·.take n₁) = o₁.outputs :=
   causal_of_hotStart _ C06.hotstart_Muskingum p a b st n₁ n₂ o₁ o₂ hl ha hb h₁ h₂ hout hlen
+
+/-! ## Hot-start continuity of the stateless kernels (empty state row) -/
+
+/-- RunoffCoefficient: pointwise `coeff * rain`. -/
+theorem hotstart_RunoffCoefficient : HotStart (Coeff.model (α := α)) := by
+  intro p a b st n₁ n₂ o₁ o₂ hl ha hb h₁ h₂
+  unfold Coeff.model at h₁ h₂ ⊢
+  simp only at h₁ h₂ ⊢
+  match p, a, st, h₁ with
+  | [coeff], [a1], [], h₁ =>
+    simp only [Except.ok.injEq] at h₁
+    subst h₁
+    match b, hl, h₂ with
+    | [b1], _, h₂ =>
+      simp only [Except.ok.injEq] at h₂
+      subst h₂
+      refine ⟨_, rfl, ?_, rfl⟩
+      simp only [catSeries, List.zipWith_cons_cons, List.zipWith_nil_right, Coeff.run, List.map_append, List.length_append, zeros_add]
+
+/-- ApplyScalingFactor: pointwise (or the all-zero early return). -/
+theorem hotstart_ApplyScalingFactor : HotStart (Scaling.model (α := α)) := by
+  intro p a b st n₁ n₂ o₁ o₂ hl ha hb h₁ h₂
+  unfold Scaling.model Scaling.mk at h₁ h₂ ⊢
+  simp only at h₁ h₂ ⊢
+  match p, a, st, h₁ with
+  | [scale], [a1], [], h₁ =>
+    simp only [Except.ok.injEq] at h₁
+    subst h₁
+    match b, hl, h₂ with
+    | [b1], _, h₂ =>
+      simp only [Except.ok.injEq] at h₂
+      subst h₂
+      refine ⟨_, rfl, ?_, rfl⟩
+      simp only [catSeries, List.zipWith_cons_cons, List.zipWith_nil_right, Scaling.mk, Scaling.run, List.map_append, List.length_append, zeros_add]
+      split <;> simp only [catSeries, List.zipWith_cons_cons, List.zipWith_nil_right, Scaling.mk, Scaling.run, List.map_append, List.length_append, zeros_add]
+
+/-- DeliveryRatio: the same kernel as ApplyScalingFactor. -/
+theorem hotstart_DeliveryRatio : HotStart (Scaling.deliveryRatio (α := α)) := by
+  intro p a b st n₁ n₂ o₁ o₂ hl ha hb h₁ h₂
+  unfold Scaling.deliveryRatio Scaling.mk at h₁ h₂ ⊢
+  simp only at h₁ h₂ ⊢
+  match p, a, st, h₁ with
+  | [scale], [a1], [], h₁ =>
+    simp only [Except.ok.injEq] at h₁
+    subst h₁
+    match b, hl, h₂ with
+    | [b1], _, h₂ =>
+      simp only [Except.ok.injEq] at h₂
+      subst h₂
+      refine ⟨_, rfl, ?_, rfl⟩
+      simp only [catSeries, List.zipWith_cons_cons, List.zipWith_nil_right, Scaling.mk, Scaling.run, List.map_append, List.length_append, zeros_add]
+      split <;> simp only [catSeries, List.zipWith_cons_cons, List.zipWith_nil_right, Scaling.mk, Scaling.run, List.map_append, List.length_append, zeros_add]
+
+/-- DepthToRate: pointwise (or the all-zero early return). -/
+theorem hotstart_DepthToRate : HotStart (DepthToRate.model (α := α)) := by
+  intro p a b st n₁ n₂ o₁ o₂ hl ha hb h₁ h₂
+  unfold DepthToRate.model at h₁ h₂ ⊢
+  simp only at h₁ h₂ ⊢
+  match p, a, st, h₁ with
+  | [deltaT, area], [a1], [], h₁ =>
+    simp only [Except.ok.injEq] at h₁
+    subst h₁
+    match b, hl, h₂ with
+    | [b1], _, h₂ =>
+      simp only [Except.ok.injEq] at h₂
+      subst h₂
+      refine ⟨_, rfl, ?_, rfl⟩
+      simp only [catSeries, List.zipWith_cons_cons, List.zipWith_nil_right, DepthToRate.run, List.map_append, List.length_append, zeros_add]
+      split <;> simp only [catSeries, List.zipWith_cons_cons, List.zipWith_nil_right, DepthToRate.run, List.map_append, List.length_append, zeros_add]
+
+/-- Input: copy. -/
+theorem hotstart_Input : HotStart (InputNode.model (α := α)) := by
+  intro p a b st n₁ n₂ o₁ o₂ hl ha hb h₁ h₂
+  unfold InputNode.model at h₁ h₂ ⊢
+  simp only at h₁ h₂ ⊢
+  match p, a, st, h₁ with
+  | [], [a1], [], h₁ =>
+    simp only [Except.ok.injEq] at h₁
+    subst h₁
+    match b, hl, h₂ with
+    | [b1], _, h₂ =>
+      simp only [Except.ok.injEq] at h₂
+      subst h₂
+      refine ⟨_, rfl, ?_, rfl⟩
+      simp only [catSeries, List.zipWith_cons_cons, List.zipWith_nil_right, InputNode.run, List.map_append, List.length_append, zeros_add]
+
+/-- Sum: pointwise. -/
+theorem hotstart_Sum : HotStart (Sum.model (α := α)) := by
+  intro p a b st n₁ n₂ o₁ o₂ hl ha hb h₁ h₂
+  unfold Sum.model at h₁ h₂ ⊢
+  simp only at h₁ h₂ ⊢
+  match p, a, st, h₁ with
+  | [], [a1, a2], [], h₁ =>
+    simp only [Except.ok.injEq] at h₁
+    subst h₁
+    match b, hl, h₂ with
+    | [b1, b2], _, h₂ =>
+      simp only [Except.ok.injEq] at h₂
+      subst h₂
+      have e1 : a1.length = a2.length := ha.eq (by simp) (by simp)
+      refine ⟨_, rfl, ?_, rfl⟩
+      simp only [catSeries, List.zipWith_cons_cons, List.zipWith_nil_right, Sum.run, zip_append_eq _ _ _ _ e1, List.map_append, List.length_append, zeros_add]
+
+/-- Gate: pointwise. -/
+theorem hotstart_Gate : HotStart (Gate.model (α := α)) := by
+  intro p a b st n₁ n₂ o₁ o₂ hl ha hb h₁ h₂
+  unfold Gate.model at h₁ h₂ ⊢
+  simp only at h₁ h₂ ⊢
+  match p, a, st, h₁ with
+  | [], [a1, a2], [], h₁ =>
+    simp only [Except.ok.injEq] at h₁
+    subst h₁
+    match b, hl, h₂ with
+    | [b1, b2], _, h₂ =>
+      simp only [Except.ok.injEq] at h₂
+      subst h₂
+      have e1 : a1.length = a2.length := ha.eq (by simp) (by simp)
+      refine ⟨_, rfl, ?_, rfl⟩
+      simp only [catSeries, List.zipWith_cons_cons, List.zipWith_nil_right, Gate.run, zip_append_eq _ _ _ _ e1, List.map_append, List.length_append, zeros_add]
+
+/-- ComputeProportion: pointwise. -/
+theorem hotstart_ComputeProportion : HotStart (ComputeProportion.model (α := α)) := by
+  intro p a b st n₁ n₂ o₁ o₂ hl ha hb h₁ h₂
+  unfold ComputeProportion.model at h₁ h₂ ⊢
+  simp only at h₁ h₂ ⊢
+  match p, a, st, h₁ with
+  | [r], [a1, a2], [], h₁ =>
+    simp only [Except.ok.injEq] at h₁
+    subst h₁
+    match b, hl, h₂ with
+    | [b1, b2], _, h₂ =>
+      simp only [Except.ok.injEq] at h₂
+      subst h₂
+      have e1 : a1.length = a2.length := ha.eq (by simp) (by simp)
+      refine ⟨_, rfl, ?_, rfl⟩
+      simp only [catSeries, List.zipWith_cons_cons, List.zipWith_nil_right, ComputeProportion.run, zip_append_eq _ _ _ _ e1, List.map_append, List.length_append, zeros_add]
+
+/-- BaseflowFilter: the loop body is empty, both outputs stay zero. -/
+theorem hotstart_BaseflowFilter : HotStart (BaseflowFilter.model (α := α)) := by
+  intro p a b st n₁ n₂ o₁ o₂ hl ha hb h₁ h₂
+  unfold BaseflowFilter.model at h₁ h₂ ⊢
+  simp only at h₁ h₂ ⊢
+  match p, a, st, h₁ with
+  | [], [a1], [], h₁ =>
+    simp only [Except.ok.injEq] at h₁
+    subst h₁
+    match b, hl, h₂ with
+    | [b1], _, h₂ =>
+      simp only [Except.ok.injEq] at h₂
+      subst h₂
+      refine ⟨_, rfl, ?_, rfl⟩
+      simp only [catSeries, List.zipWith_cons_cons, List.zipWith_nil_right, BaseflowFilter.run, List.map_append, List.length_append, zeros_add]
+
+/-- FixedPartition: pointwise. -/
+theorem hotstart_FixedPartition : HotStart (FixedPartition.model (α := α)) := by
+  intro p a b st n₁ n₂ o₁ o₂ hl ha hb h₁ h₂
+  unfold FixedPartition.model at h₁ h₂ ⊢
+  simp only at h₁ h₂ ⊢
+  match p, a, st, h₁ with
+  | [fraction], [a1], [], h₁ =>
+    simp only [Except.ok.injEq] at h₁
+    subst h₁
+    match b, hl, h₂ with
+    | [b1], _, h₂ =>
+      simp only [Except.ok.injEq] at h₂
+      subst h₂
+      refine ⟨_, rfl, ?_, rfl⟩
+      simp only [catSeries, List.zipWith_cons_cons, List.zipWith_nil_right, FixedPartition.run, List.map_append, List.length_append, zeros_add]
+
+/-- VariablePartition: pointwise. -/
+theorem hotstart_VariablePartition : HotStart (VariablePartition.model (α := α)) := by
+  intro p a b st n₁ n₂ o₁ o₂ hl ha hb h₁ h₂
+  unfold VariablePartition.model at h₁ h₂ ⊢
+  simp only at h₁ h₂ ⊢
+  match p, a, st, h₁ with
+  | [], [a1, a2], [], h₁ =>
+    simp only [Except.ok.injEq] at h₁
+    subst h₁
+    match b, hl, h₂ with
+    | [b1, b2], _, h₂ =>
+      simp only [Except.ok.injEq] at h₂
+      subst h₂
+      have e1 : a1.length = a2.length := ha.eq (by simp) (by simp)
+      refine ⟨_, rfl, ?_, rfl⟩
+      simp only [catSeries, List.zipWith_cons_cons, List.zipWith_nil_right, VariablePartition.run, zip_append_eq _ _ _ _ e1, List.map_append, List.length_append, zeros_add]
+
+/-- PartitionDemand: pointwise. -/
+theorem hotstart_PartitionDemand : HotStart (PartitionDemand.model (α := α)) := by
+  intro p a b st n₁ n₂ o₁ o₂ hl ha hb h₁ h₂
+  unfold PartitionDemand.model at h₁ h₂ ⊢
+  simp only at h₁ h₂ ⊢
+  match p, a, st, h₁ with
+  | [], [a1, a2], [], h₁ =>
+    simp only [Except.ok.injEq] at h₁
+    subst h₁
+    match b, hl, h₂ with
+    | [b1, b2], _, h₂ =>
+      simp only [Except.ok.injEq] at h₂
+      subst h₂
+      have e1 : a1.length = a2.length := ha.eq (by simp) (by simp)
+      refine ⟨_, rfl, ?_, rfl⟩
+      simp only [catSeries, List.zipWith_cons_cons, List.zipWith_nil_right, PartitionDemand.run, zip_append_eq _ _ _ _ e1, List.map_append, List.length_append, zeros_add]
+
+/-- EmcDwc: pointwise (or the all-zero early return). -/
+theorem hotstart_EmcDwc : HotStart (EmcDwc.model (α := α)) := by
+  intro p a b st n₁ n₂ o₁ o₂ hl ha hb h₁ h₂
+  unfold EmcDwc.model at h₁ h₂ ⊢
+  simp only at h₁ h₂ ⊢
+  match p, a, st, h₁ with
+  | [emc, dwc], [a1, a2], [], h₁ =>
+    simp only [Except.ok.injEq] at h₁
+    subst h₁
+    match b, hl, h₂ with
+    | [b1, b2], _, h₂ =>
+      simp only [Except.ok.injEq] at h₂
+      subst h₂
+      have e1 : a1.length = a2.length := ha.eq (by simp) (by simp)
+      refine ⟨_, rfl, ?_, rfl⟩
+      simp only [catSeries, List.zipWith_cons_cons, List.zipWith_nil_right, EmcDwc.run, zip_append_eq _ _ _ _ e1, List.map_append, List.length_append, zeros_add, ← List.replicate_append_replicate]
+      split <;> simp only [catSeries, List.zipWith_cons_cons, List.zipWith_nil_right, EmcDwc.run, zip_append_eq _ _ _ _ e1, List.map_append, List.length_append, zeros_add, ← List.replicate_append_replicate]
+
+/-- FixedConcentration: pointwise (or the all-zero early return). -/
+theorem hotstart_FixedConcentration : HotStart (FixedConcentration.model (α := α)) := by
+  intro p a b st n₁ n₂ o₁ o₂ hl ha hb h₁ h₂
+  unfold FixedConcentration.model at h₁ h₂ ⊢
+  simp only at h₁ h₂ ⊢
+  match p, a, st, h₁ with
+  | [conc], [a1], [], h₁ =>
+    simp only [Except.ok.injEq] at h₁
+    subst h₁
+    match b, hl, h₂ with
+    | [b1], _, h₂ =>
+      simp only [Except.ok.injEq] at h₂
+      subst h₂
+      refine ⟨_, rfl, ?_, rfl⟩
+      simp only [catSeries, List.zipWith_cons_cons, List.zipWith_nil_right, FixedConcentration.run, List.map_append, List.length_append, zeros_add]
+      split <;> simp only [catSeries, List.zipWith_cons_cons, List.zipWith_nil_right, FixedConcentration.run, List.map_append, List.length_append, zeros_add]
+
+/-- PassLoadIfFlow: pointwise (or the all-zero early return). -/
+theorem hotstart_PassLoadIfFlow : HotStart (PassLoadIfFlow.model (α := α)) := by
+  intro p a b st n₁ n₂ o₁ o₂ hl ha hb h₁ h₂
+  unfold PassLoadIfFlow.model at h₁ h₂ ⊢
+  simp only at h₁ h₂ ⊢
+  match p, a, st, h₁ with
+  | [sf], [a1, a2], [], h₁ =>
+    simp only [Except.ok.injEq] at h₁
+    subst h₁
+    match b, hl, h₂ with
+    | [b1, b2], _, h₂ =>
+      simp only [Except.ok.injEq] at h₂
+      subst h₂
+      have e1 : a1.length = a2.length := ha.eq (by simp) (by simp)
+      refine ⟨_, rfl, ?_, rfl⟩
+      simp only [catSeries, List.zipWith_cons_cons, List.zipWith_nil_right, PassLoadIfFlow.run, zip_append_eq _ _ _ _ e1, List.map_append, List.length_append, zeros_add]
+      split <;> simp only [catSeries, List.zipWith_cons_cons, List.zipWith_nil_right, PassLoadIfFlow.run, zip_append_eq _ _ _ _ e1, List.map_append, List.length_append, zeros_add]
+
+/-- SednetDissolvedNutrientGeneration: pointwise. -/
+theorem hotstart_SednetDissolvedNutrientGeneration : HotStart (DissolvedNutrients.model (α := α)) := by
+  intro p a b st n₁ n₂ o₁ o₂ hl ha hb h₁ h₂
+  unfold DissolvedNutrients.model at h₁ h₂ ⊢
+  simp only at h₁ h₂ ⊢
+  match p, a, st, h₁ with
+  | [emc, dwc], [a1, a2], [], h₁ =>
+    simp only [Except.ok.injEq] at h₁
+    subst h₁
+    match b, hl, h₂ with
+    | [b1, b2], _, h₂ =>
+      simp only [Except.ok.injEq] at h₂
+      subst h₂
+      have e1 : a1.length = a2.length := ha.eq (by simp) (by simp)
+      refine ⟨_, rfl, ?_, rfl⟩
+      simp only [catSeries, List.zipWith_cons_cons, List.zipWith_nil_right, DissolvedNutrients.run, zip_append_eq _ _ _ _ e1, List.map_append, List.length_append, zeros_add]
+
+/-- SednetParticulateNutrientGeneration: pointwise. -/
+theorem hotstart_SednetParticulateNutrientGeneration : HotStart (ParticulateNutrients.model (α := α)) := by
+  intro p a b st n₁ n₂ o₁ o₂ hl ha hb h₁ h₂
+  unfold ParticulateNutrients.model at h₁ h₂ ⊢
+  simp only at h₁ h₂ ⊢
+  match p, a, st, h₁ with
+  | [area, nsc, hdr, ner, nssc, nerg, gdr, dwc, creams], [a1, a2, a3, a4, a5], [], h₁ =>
+    simp only [Except.ok.injEq] at h₁
+    subst h₁
+    match b, hl, h₂ with
+    | [b1, b2, b3, b4, b5], _, h₂ =>
+      simp only [Except.ok.injEq] at h₂
+      subst h₂
+      have e1 : a1.length = a2.length := ha.eq (by simp) (by simp)
+      have e2 : a1.length = a3.length := ha.eq (by simp) (by simp)
+      have e3 : a1.length = a4.length := ha.eq (by simp) (by simp)
+      have e4 : a1.length = a5.length := ha.eq (by simp) (by simp)
+      refine ⟨_, rfl, ?_, rfl⟩
+      simp only [catSeries, List.zipWith_cons_cons, List.zipWith_nil_right, ParticulateNutrients.run, zip5_append _ _ _ _ _ _ _ _ _ _ e1 e2 e3 e4, List.map_append, List.length_append, zeros_add]
+
+/-- BankErosion: pointwise (the mean annual erosion is a function of the parameters only). -/
+theorem hotstart_BankErosion : HotStart (BankErosion.model (α := α)) := by
+  intro p a b st n₁ n₂ o₁ o₂ hl ha hb h₁ h₂
+  unfold BankErosion.model at h₁ h₂ ⊢
+  simp only at h₁ h₂ ⊢
+  match p, a, st, h₁ with
+  | [p1, p2, p3, p4, p5, p6, p7, p8, p9, p10, p11, p12, p13, p14], [a1, a2], [], h₁ =>
+    simp only [Except.ok.injEq] at h₁
+    subst h₁
+    match b, hl, h₂ with
+    | [b1, b2], _, h₂ =>
+      simp only [Except.ok.injEq] at h₂
+      subst h₂
+      have e1 : a1.length = a2.length := ha.eq (by simp) (by simp)
+      refine ⟨_, rfl, ?_, rfl⟩
+      simp only [catSeries, List.zipWith_cons_cons, List.zipWith_nil_right, BankErosion.run, zip_append_eq _ _ _ _ e1, List.map_append, List.length_append, zeros_add]
+
+/-- USLEFineSedimentGeneration: pointwise (day of year is an input series). -/
+theorem hotstart_USLEFineSedimentGeneration : HotStart (UsleFine.model (α := α)) := by
+  intro p a b st n₁ n₂ o₁ o₂ hl ha hb h₁ h₂
+  unfold UsleFine.model at h₁ h₂ ⊢
+  simp only at h₁ h₂ ⊢
+  match p, a, st, h₁ with
+  | [p1, p2, p3, p4, p5, p6, p7, p8, p9, p10, p11, p12, p13, p14, p15, p16, p17, p18], [a1, a2, a3, a4, a5, a6, a7], [], h₁ =>
+    simp only [Except.ok.injEq] at h₁
+    subst h₁
+    match b, hl, h₂ with
+    | [b1, b2, b3, b4, b5, b6, b7], _, h₂ =>
+      simp only [Except.ok.injEq] at h₂
+      subst h₂
+      have e1 : a1.length = a2.length := ha.eq (by simp) (by simp)
+      have e2 : a1.length = a3.length := ha.eq (by simp) (by simp)
+      have e3 : a1.length = a4.length := ha.eq (by simp) (by simp)
+      have e4 : a1.length = a5.length := ha.eq (by simp) (by simp)
+      have e5 : a1.length = a6.length := ha.eq (by simp) (by simp)
+      have e6 : a1.length = a7.length := ha.eq (by simp) (by simp)
+      refine ⟨_, rfl, ?_, rfl⟩
+      simp only [catSeries, List.zipWith_cons_cons, List.zipWith_nil_right, UsleFine.run, zip5_append _ _ _ _ _ _ _ _ _ _ e1 e2 e3 e4, zip_append_eq _ _ _ _ (e5.symm.trans e6), zip_append_eq _ _ _ _ ((zip5_length _ _ _ _ _ e1 e2 e3 e4).trans (e5.trans (zip_length_eq _ _ (e5.symm.trans e6)).symm)), List.map_append, List.length_append, zeros_add]
+
+/-- DynamicSednetGully: pointwise. -/
+theorem hotstart_DynamicSednetGully : HotStart (SednetGully.model (α := α)) := by
+  intro p a b st n₁ n₂ o₁ o₂ hl ha hb h₁ h₂
+  unfold SednetGully.model SednetGully.mk at h₁ h₂ ⊢
+  simp only at h₁ h₂ ⊢
+  match p, a, st, h₁ with
+  | [yd, ge, area, af, supply, pf, mpf, ltrf, drpf, sf, sc, ts], [a1, a2, a3, a4], [], h₁ =>
+    simp only [Except.ok.injEq] at h₁
+    subst h₁
+    match b, hl, h₂ with
+    | [b1, b2, b3, b4], _, h₂ =>
+      simp only [Except.ok.injEq] at h₂
+      subst h₂
+      have e1 : a1.length = a2.length := ha.eq (by simp) (by simp)
+      have e2 : a1.length = a3.length := ha.eq (by simp) (by simp)
+      have e3 : a1.length = a4.length := ha.eq (by simp) (by simp)
+      refine ⟨_, rfl, ?_, rfl⟩
+      simp only [catSeries, List.zipWith_cons_cons, List.zipWith_nil_right, SednetGully.mk, SednetGully.run, zip4_append _ _ _ _ _ _ _ _ e1 e2 e3, List.map_append, List.length_append, zeros_add]
+
+/-- DynamicSednetGullyAlt: pointwise. -/
+theorem hotstart_DynamicSednetGullyAlt : HotStart (SednetGully.modelAlt (α := α)) := by
+  intro p a b st n₁ n₂ o₁ o₂ hl ha hb h₁ h₂
+  unfold SednetGully.modelAlt SednetGully.mk at h₁ h₂ ⊢
+  simp only at h₁ h₂ ⊢
+  match p, a, st, h₁ with
+  | [yd, ge, area, af, supply, pf, mpf, ltrf, drpf, sf, sc, ts], [a1, a2, a3, a4], [], h₁ =>
+    simp only [Except.ok.injEq] at h₁
+    subst h₁
+    match b, hl, h₂ with
+    | [b1, b2, b3, b4], _, h₂ =>
+      simp only [Except.ok.injEq] at h₂
+      subst h₂
+      have e1 : a1.length = a2.length := ha.eq (by simp) (by simp)
+      have e2 : a1.length = a3.length := ha.eq (by simp) (by simp)
+      have e3 : a1.length = a4.length := ha.eq (by simp) (by simp)
+      refine ⟨_, rfl, ?_, rfl⟩
+      simp only [catSeries, List.zipWith_cons_cons, List.zipWith_nil_right, SednetGully.mk, SednetGully.run, zip4_append _ _ _ _ _ _ _ _ e1 e2 e3, List.map_append, List.length_append, zeros_add]
+
+/-- ClimateVariables: pointwise. -/
+theorem hotstart_ClimateVariables : HotStart (Climate.model (α := α)) := by
+  intro p a b st n₁ n₂ o₁ o₂ hl ha hb h₁ h₂
+  unfold Climate.model at h₁ h₂ ⊢
+  simp only at h₁ h₂ ⊢
+  match p, a, st, h₁ with
+  | [elevation], [a1, a2], [], h₁ =>
+    simp only [Except.ok.injEq] at h₁
+    subst h₁
+    match b, hl, h₂ with
+    | [b1, b2], _, h₂ =>
+      simp only [Except.ok.injEq] at h₂
+      subst h₂
+      have e1 : a1.length = a2.length := ha.eq (by simp) (by simp)
+      refine ⟨_, rfl, ?_, rfl⟩
+      simp only [catSeries, List.zipWith_cons_cons, List.zipWith_nil_right, Climate.run, zip_append_eq _ _ _ _ e1, List.map_append, List.length_append, zeros_add]
+
+/-- RatingCurvePartition: pointwise table lookup; a panicking timestep stops the run (then the hypotheses fail). -/
+theorem hotstart_RatingCurvePartition : HotStart (RatingCurvePartition.model (α := α)) := by
+  intro p a b st n₁ n₂ o₁ o₂ hl ha hb h₁ h₂
+  unfold RatingCurvePartition.model at h₁ h₂ ⊢
+  simp only at h₁ h₂ ⊢
+  cases hd : RatingCurvePartition.decode p with
+  | none => rw [hd] at h₁; simp at h₁
+  | some t =>
+    obtain ⟨xs, ys⟩ := t
+    rw [hd] at h₁ h₂
+    match a, st, h₁ with
+    | [a1], [], h₁ =>
+      match b, hl, h₂ with
+      | [b1], _, h₂ =>
+        simp only [catSeries, List.zipWith_cons_cons, List.zipWith_nil_right] at h₁ h₂ ⊢
+        cases hr1 : RatingCurvePartition.run xs ys a1 with
+        | error e => rw [hr1] at h₁; simp at h₁
+        | ok r1 =>
+          rw [hr1] at h₁
+          simp only [Except.ok.injEq] at h₁
+          subst h₁
+          simp only at h₂
+          cases hr2 : RatingCurvePartition.run xs ys b1 with
+          | error e => rw [hr2] at h₂; simp at h₂
+          | ok r2 =>
+            rw [hr2] at h₂
+            simp only [Except.ok.injEq] at h₂
+            subst h₂
+            rw [ratingCurve_run_append xs ys a1 b1 r1 r2 hr1 hr2]
+            refine ⟨_, rfl, ?_, rfl⟩
+            simp only [catSeries, List.zipWith_cons_cons, List.zipWith_nil_right, List.map_append]
+/-! ## Causality of every catalogue model -/
+
+/-- Muskingum. -/
+theorem causal_Muskingum : Causal (Muskingum.model (α := α)) := by
+  intro p a b st n₁ n₂ o o₁ hl ha hb h h₁
+  unfold Muskingum.model at h h₁
+  simp only at h h₁
+  match p, a, st, h₁ with
+  | [k, x, dT], [a1, a2], [s, pi, po], h₁ =>
+    simp only [Except.ok.injEq] at h₁
+    subst h₁
+    match b, hl, h with
+    | [b1, b2], _, h =>
+      simp only [catSeries, List.zipWith_cons_cons, List.zipWith_nil_right, Except.ok.injEq] at h
+      subst h
+      have e1 : a1.length = a2.length := ha.eq (by simp) (by simp)
+      have hn : a1.length = n₁ := ha a1 (by simp)
+      subst hn
+      simp only [Muskingum.run, zip_append_eq _ _ _ _ e1, map_append_scan, scan_append_snd, List.map_append, List.map_cons, List.map_nil, List.length_append, zeros_add]
+      simp only [Muskingum.run, zip_append_eq _ _ _ _ e1, map_append_scan, scan_append_snd, List.map_append, List.map_cons, List.map_nil, List.length_append, zeros_add, take_append_len, List.length_map, scan_length, zeros_length, List.length_replicate, zip_length_eq _ _ e1]
+
+/-- LumpedConstituentRouting. -/
+theorem causal_LumpedConstituentRouting : Causal (LumpedConstituent.model (α := α)) := by
+  intro p a b st n₁ n₂ o o₁ hl ha hb h h₁
+  unfold LumpedConstituent.model at h h₁
+  simp only at h h₁
+  match p, a, st, h₁ with
+  | [_x, pi, dt], [a1, a2, a3, a4], [sm], h₁ =>
+    simp only [Except.ok.injEq] at h₁
+    subst h₁
+    match b, hl, h with
+    | [b1, b2, b3, b4], _, h =>
+      simp only [catSeries, List.zipWith_cons_cons, List.zipWith_nil_right, Except.ok.injEq] at h
+      subst h
+      have e1 : a1.length = a2.length := ha.eq (by simp) (by simp)
+      have e2 : a1.length = a3.length := ha.eq (by simp) (by simp)
+      have e3 : a1.length = a4.length := ha.eq (by simp) (by simp)
+      have hn : a1.length = n₁ := ha a1 (by simp)
+      subst hn
+      simp only [LumpedConstituent.run, zip4_append _ _ _ _ _ _ _ _ e1 e2 e3, map_append_scan, scan_append_snd, List.map_append, List.map_cons, List.map_nil, List.length_append, zeros_add]
+      simp only [LumpedConstituent.run, zip4_append _ _ _ _ _ _ _ _ e1 e2 e3, map_append_scan, scan_append_snd, List.map_append, List.map_cons, List.map_nil, List.length_append, zeros_add, take_append_len, List.length_map, scan_length, zeros_length, List.length_replicate, zip4_length _ _ _ _ e1 e2 e3]
+
+/-- ConstituentDecay. -/
+theorem causal_ConstituentDecay : Causal (ConstituentDecay.model (α := α)) := by
+  intro p a b st n₁ n₂ o o₁ hl ha hb h h₁
+  unfold ConstituentDecay.model at h h₁
+  simp only at h h₁
+  match p, a, st, h₁ with
+  | [_x, hlf, dt], [a1, a2, a3, a4, a5], [sm], h₁ =>
+    simp only [Except.ok.injEq] at h₁
+    subst h₁
+    match b, hl, h with
+    | [b1, b2, b3, b4, b5], _, h =>
+      simp only [catSeries, List.zipWith_cons_cons, List.zipWith_nil_right, Except.ok.injEq] at h
+      subst h
+      have e1 : a1.length = a2.length := ha.eq (by simp) (by simp)
+      have e2 : a1.length = a3.length := ha.eq (by simp) (by simp)
+      have e3 : a1.length = a4.length := ha.eq (by simp) (by simp)
+      have e4 : a1.length = a5.length := ha.eq (by simp) (by simp)
+      have hn : a1.length = n₁ := ha a1 (by simp)
+      subst hn
+      simp only [ConstituentDecay.run, zip5_append _ _ _ _ _ _ _ _ _ _ e1 e2 e3 e4, map_append_scan, scan_append_snd, List.map_append, List.map_cons, List.map_nil, List.length_append, zeros_add]
+      simp only [ConstituentDecay.run, zip5_append _ _ _ _ _ _ _ _ _ _ e1 e2 e3 e4, map_append_scan, scan_append_snd, List.map_append, List.map_cons, List.map_nil, List.length_append, zeros_add, take_append_len, List.length_map, scan_length, zeros_length, List.length_replicate, zip5_length _ _ _ _ _ e1 e2 e3 e4]
+
+/-- StorageDissolvedDecay. -/
+theorem causal_StorageDissolvedDecay : Causal (StorageDissolvedDecay.model (α := α)) := by
+  intro p a b st n₁ n₂ o o₁ hl ha hb h h₁
+  unfold StorageDissolvedDecay.model at h h₁
+  simp only at h h₁
+  match p, a, st, h₁ with
+  | [dt, dsd, _ari, bff, mfrt], [a1, a2, a3, a4], [sm], h₁ =>
+    simp only [Except.ok.injEq] at h₁
+    subst h₁
+    match b, hl, h with
+    | [b1, b2, b3, b4], _, h =>
+      simp only [catSeries, List.zipWith_cons_cons, List.zipWith_nil_right, Except.ok.injEq] at h
+      subst h
+      have e1 : a1.length = a2.length := ha.eq (by simp) (by simp)
+      have e2 : a1.length = a3.length := ha.eq (by simp) (by simp)
+      have e3 : a1.length = a4.length := ha.eq (by simp) (by simp)
+      have hn : a1.length = n₁ := ha a1 (by simp)
+      subst hn
+      simp only [StorageDissolvedDecay.run, zip4_append _ _ _ _ _ _ _ _ e1 e2 e3, map_append_scan, scan_append_snd, List.map_append, List.map_cons, List.map_nil, List.length_append, zeros_add]
+      simp only [StorageDissolvedDecay.run, zip4_append _ _ _ _ _ _ _ _ e1 e2 e3, map_append_scan, scan_append_snd, List.map_append, List.map_cons, List.map_nil, List.length_append, zeros_add, take_append_len, List.length_map, scan_length, zeros_length, List.length_replicate, zip4_length _ _ _ _ e1 e2 e3]
+
+/-- StorageParticulateTrapping. -/
+theorem causal_StorageParticulateTrapping : Causal (StorageParticulateTrapping.model (α := α)) := by
+  intro p a b st n₁ n₂ o o₁ hl ha hb h h₁
+  unfold StorageParticulateTrapping.model at h h₁
+  simp only at h h₁
+  match p, a, st, h₁ with
+  | [dt, cap, len, sub, mul, ldf, ldp], [a1, a2, a3, a4], [sm], h₁ =>
+    simp only [Except.ok.injEq] at h₁
+    subst h₁
+    match b, hl, h with
+    | [b1, b2, b3, b4], _, h =>
+      simp only [catSeries, List.zipWith_cons_cons, List.zipWith_nil_right, Except.ok.injEq] at h
+      subst h
+      have e1 : a1.length = a2.length := ha.eq (by simp) (by simp)
+      have e2 : a1.length = a3.length := ha.eq (by simp) (by simp)
+      have e3 : a1.length = a4.length := ha.eq (by simp) (by simp)
+      have hn : a1.length = n₁ := ha a1 (by simp)
+      subst hn
+      simp only [StorageParticulateTrapping.run, zip4_append _ _ _ _ _ _ _ _ e1 e2 e3, map_append_scan, scan_append_snd, List.map_append, List.map_cons, List.map_nil, List.length_append, zeros_add]
+      simp only [StorageParticulateTrapping.run, zip4_append _ _ _ _ _ _ _ _ e1 e2 e3, map_append_scan, scan_append_snd, List.map_append, List.map_cons, List.map_nil, List.length_append, zeros_add, take_append_len, List.length_map, scan_length, zeros_length, List.length_replicate, zip4_length _ _ _ _ e1 e2 e3]
+
+/-- InstreamCoarseSediment. -/
+theorem causal_InstreamCoarseSediment : Causal (InstreamCoarseSediment.model (α := α)) := by
+  intro p a b st n₁ n₂ o o₁ hl ha hb h h₁
+  unfold InstreamCoarseSediment.model at h h₁
+  simp only at h h₁
+  match p, a, st, h₁ with
+  | [dt], [a1, a2, a3], [cs, sm], h₁ =>
+    simp only [Except.ok.injEq] at h₁
+    subst h₁
+    match b, hl, h with
+    | [b1, b2, b3], _, h =>
+      simp only [catSeries, List.zipWith_cons_cons, List.zipWith_nil_right, Except.ok.injEq] at h
+      subst h
+      have e1 : a1.length = a2.length := ha.eq (by simp) (by simp)
+      have e2 : a1.length = a3.length := ha.eq (by simp) (by simp)
+      have hn : a1.length = n₁ := ha a1 (by simp)
+      subst hn
+      simp only [InstreamCoarseSediment.run, zip3_append _ _ _ _ _ _ e1 e2, map_append_scan, scan_append_snd, List.map_append, List.map_cons, List.map_nil, List.length_append, zeros_add]
+      simp only [InstreamCoarseSediment.run, zip3_append _ _ _ _ _ _ e1 e2, map_append_scan, scan_append_snd, List.map_append, List.map_cons, List.map_nil, List.length_append, zeros_add, take_append_len, List.length_map, scan_length, zeros_length, List.length_replicate, zip3_length _ _ _ e1 e2]
+
+/-- InstreamParticulateNutrient. -/
+theorem causal_InstreamParticulateNutrient : Causal (InstreamParticulateNutrient.model (α := α)) := by
+  intro p a b st n₁ n₂ o o₁ hl ha hb h h₁
+  unfold InstreamParticulateNutrient.model at h h₁
+  simp only at h h₁
+  match p, a, st, h₁ with
+  | [pnc, spf, dt], [a1, a2, a3, a4, a5, a6, a7, a8], [ism, csm], h₁ =>
+    simp only [Except.ok.injEq] at h₁
+    subst h₁
+    match b, hl, h with
+    | [b1, b2, b3, b4, b5, b6, b7, b8], _, h =>
+      simp only [catSeries, List.zipWith_cons_cons, List.zipWith_nil_right, Except.ok.injEq] at h
+      subst h
+      have e1 : a1.length = a2.length := ha.eq (by simp) (by simp)
+      have e2 : a1.length = a3.length := ha.eq (by simp) (by simp)
+      have e3 : a1.length = a4.length := ha.eq (by simp) (by simp)
+      have e4 : a1.length = a5.length := ha.eq (by simp) (by simp)
+      have e5 : a1.length = a6.length := ha.eq (by simp) (by simp)
+      have e6 : a1.length = a7.length := ha.eq (by simp) (by simp)
+      have e7 : a1.length = a8.length := ha.eq (by simp) (by simp)
+      have hn : a1.length = n₁ := ha a1 (by simp)
+      subst hn
+      simp only [InstreamParticulateNutrient.run, zipIn_append _ _ _ _ _ _ _ _ _ _ _ _ _ _ _ _ e1 e2 e3 e4 e5 e6 e7, map_append_scan, scan_append_snd, List.map_append, List.map_cons, List.map_nil, List.length_append, zeros_add]
+      simp only [InstreamParticulateNutrient.run, zipIn_append _ _ _ _ _ _ _ _ _ _ _ _ _ _ _ _ e1 e2 e3 e4 e5 e6 e7, map_append_scan, scan_append_snd, List.map_append, List.map_cons, List.map_nil, List.length_append, zeros_add, take_append_len, List.length_map, scan_length, zeros_length, List.length_replicate, zipIn_length _ _ _ _ _ _ _ _ e1 e2 e3 e4 e5 e6 e7]
+
+/-- InstreamFineSediment: both runs convert a negative initial channel store in the same way (same initial state row). -/
+theorem causal_InstreamFineSediment : Causal (InstreamFineSediment.model (α := α)) := by
+  intro p a b st n₁ n₂ o o₁ hl ha hb h h₁
+  unfold InstreamFineSediment.model at h h₁
+  simp only at h h₁
+  match p, a, st, h₁ with
+  | [bff, vfl, fpa, lw, ll, ls, bh, pbh, sbd, mn, vs, vr, dt], [a1, a2, a3, a4, a5], [csf, tsm], h₁ =>
+    simp only [Except.ok.injEq] at h₁
+    subst h₁
+    match b, hl, h with
+    | [b1, b2, b3, b4, b5], _, h =>
+      simp only [catSeries, List.zipWith_cons_cons, List.zipWith_nil_right, Except.ok.injEq] at h
+      subst h
+      have e1 : a1.length = a2.length := ha.eq (by simp) (by simp)
+      have e2 : a1.length = a3.length := ha.eq (by simp) (by simp)
+      have e3 : a1.length = a4.length := ha.eq (by simp) (by simp)
+      have e4 : a1.length = a5.length := ha.eq (by simp) (by simp)
+      have hn : a1.length = n₁ := ha a1 (by simp)
+      subst hn
+      simp only [InstreamFineSediment.run, zip5_append _ _ _ _ _ _ _ _ _ _ e1 e2 e3 e4, map_append_scan, scan_append_snd, List.map_append, List.map_cons, List.map_nil, List.length_append, zeros_add]
+      simp only [InstreamFineSediment.run, zip5_append _ _ _ _ _ _ _ _ _ _ e1 e2 e3 e4, map_append_scan, scan_append_snd, List.map_append, List.map_cons, List.map_nil, List.length_append, zeros_add, take_append_len, List.length_map, scan_length, zeros_length, List.length_replicate, zip5_length _ _ _ _ _ e1 e2 e3 e4]
+
+/-- Simhyd. -/
+theorem causal_Simhyd : Causal (Simhyd.model (α := α)) := by
+  intro p a b st n₁ n₂ o o₁ hl ha hb h h₁
+  unfold Simhyd.model at h h₁
+  simp only at h h₁
+  match p, a, st, h₁ with
+  | [p1, p2, p3, p4, p5, p6, p7, p8, p9], [a1, a2], [s, gw, tot], h₁ =>
+    simp only [Except.ok.injEq] at h₁
+    subst h₁
+    match b, hl, h with
+    | [b1, b2], _, h =>
+      simp only [catSeries, List.zipWith_cons_cons, List.zipWith_nil_right, Except.ok.injEq] at h
+      subst h
+      have e1 : a1.length = a2.length := ha.eq (by simp) (by simp)
+      have hn : a1.length = n₁ := ha a1 (by simp)
+      subst hn
+      simp only [Simhyd.run, zip_append_eq _ _ _ _ e1, map_append_scan, scan_append_snd, List.map_append, List.map_cons, List.map_nil, List.length_append, zeros_add]
+      simp only [Simhyd.run, zip_append_eq _ _ _ _ e1, map_append_scan, scan_append_snd, List.map_append, List.map_cons, List.map_nil, List.length_append, zeros_add, take_append_len, List.length_map, scan_length, zeros_length, List.length_replicate, zip_length_eq _ _ e1]
+
+/-- Surm. -/
+theorem causal_Surm : Causal (Surm.model (α := α)) := by
+  intro p a b st n₁ n₂ o o₁ hl ha hb h h₁
+  unfold Surm.model at h h₁
+  simp only at h h₁
+  match p, a, st, h₁ with
+  | [p1, p2, p3, p4, p5, p6, p7, p8, p9], [a1, a2], [s, gw, tot], h₁ =>
+    simp only [Except.ok.injEq] at h₁
+    subst h₁
+    match b, hl, h with
+    | [b1, b2], _, h =>
+      simp only [catSeries, List.zipWith_cons_cons, List.zipWith_nil_right, Except.ok.injEq] at h
+      subst h
+      have e1 : a1.length = a2.length := ha.eq (by simp) (by simp)
+      have hn : a1.length = n₁ := ha a1 (by simp)
+      subst hn
+      simp only [Surm.run, zip_append_eq _ _ _ _ e1, map_append_scan, scan_append_snd, List.map_append, List.map_cons, List.map_nil, List.length_append, zeros_add]
+      simp only [Surm.run, zip_append_eq _ _ _ _ e1, map_append_scan, scan_append_snd, List.map_append, List.map_cons, List.map_nil, List.length_append, zeros_add, take_append_len, List.length_map, scan_length, zeros_length, List.length_replicate, zip_length_eq _ _ e1]
+
+/-- Sacramento: both runs start with an empty unit-hydrograph buffer (same call start), any unit hydrograph. -/
+theorem causal_Sacramento : Causal (Sacramento.model (α := α)) := by
+  intro p a b st n₁ n₂ o o₁ hl ha hb h h₁
+  unfold Sacramento.model at h h₁
+  simp only at h h₁
+  match p, a, st, h₁ with
+  | [lzpk, lzsk, uzk, uztwm, uzfwm, lztwm, lzfsm, lzfpm, pfree, rexp, zperc, side, ssout, pctim, adimp, sarva, rserv, uh1, uh2, uh3, uh4, uh5], [a1, a2], [s0, s1, s2, s3, s4, s5], h₁ =>
+    simp only [Except.ok.injEq] at h₁
+    subst h₁
+    match b, hl, h with
+    | [b1, b2], _, h =>
+      simp only [catSeries, List.zipWith_cons_cons, List.zipWith_nil_right, Except.ok.injEq] at h
+      subst h
+      have e1 : a1.length = a2.length := ha.eq (by simp) (by simp)
+      have hn : a1.length = n₁ := ha a1 (by simp)
+      subst hn
+      simp only [Sacramento.run, zip_append_eq _ _ _ _ e1, map_append_scan, scan_append_snd, List.map_append, List.map_cons, List.map_nil, List.length_append, zeros_add]
+      simp only [Sacramento.run, zip_append_eq _ _ _ _ e1, map_append_scan, scan_append_snd, List.map_append, List.map_cons, List.map_nil, List.length_append, zeros_add, take_append_len, List.length_map, scan_length, zeros_length, List.length_replicate, zip_length_eq _ _ e1]
+
+/-- RunoffCoefficient. -/
+theorem causal_RunoffCoefficient : Causal (Coeff.model (α := α)) := by
+  intro p a b st n₁ n₂ o o₁ hl ha hb h h₁
+  unfold Coeff.model at h h₁
+  simp only at h h₁
+  match p, a, st, h₁ with
+  | [coeff], [a1], [], h₁ =>
+    simp only [Except.ok.injEq] at h₁
+    subst h₁
+    match b, hl, h with
+    | [b1], _, h =>
+      simp only [catSeries, List.zipWith_cons_cons, List.zipWith_nil_right, Except.ok.injEq] at h
+      subst h
+      have hn : a1.length = n₁ := ha a1 (by simp)
+      subst hn
+      simp only [Coeff.run, map_append_scan, scan_append_snd, List.map_append, List.map_cons, List.map_nil, List.length_append, zeros_add]
+      simp only [Coeff.run, map_append_scan, scan_append_snd, List.map_append, List.map_cons, List.map_nil, List.length_append, zeros_add, take_append_len, List.length_map, scan_length, zeros_length, List.length_replicate]
+
+/-- ApplyScalingFactor. -/
+theorem causal_ApplyScalingFactor : Causal (Scaling.model (α := α)) := by
+  intro p a b st n₁ n₂ o o₁ hl ha hb h h₁
+  unfold Scaling.model Scaling.mk at h h₁
+  simp only at h h₁
+  match p, a, st, h₁ with
+  | [scale], [a1], [], h₁ =>
+    simp only [Except.ok.injEq] at h₁
+    subst h₁
+    match b, hl, h with
+    | [b1], _, h =>
+      simp only [catSeries, List.zipWith_cons_cons, List.zipWith_nil_right, Except.ok.injEq] at h
+      subst h
+      have hn : a1.length = n₁ := ha a1 (by simp)
+      subst hn
+      simp only [Scaling.mk, Scaling.run, map_append_scan, scan_append_snd, List.map_append, List.map_cons, List.map_nil, List.length_append, zeros_add]
+      split <;> simp only [Scaling.mk, Scaling.run, map_append_scan, scan_append_snd, List.map_append, List.map_cons, List.map_nil, List.length_append, zeros_add, take_append_len, List.length_map, scan_length, zeros_length, List.length_replicate]
+
+/-- DeliveryRatio. -/
+theorem causal_DeliveryRatio : Causal (Scaling.deliveryRatio (α := α)) := by
+  intro p a b st n₁ n₂ o o₁ hl ha hb h h₁
+  unfold Scaling.deliveryRatio Scaling.mk at h h₁
+  simp only at h h₁
+  match p, a, st, h₁ with
+  | [scale], [a1], [], h₁ =>
+    simp only [Except.ok.injEq] at h₁
+    subst h₁
+    match b, hl, h with
+    | [b1], _, h =>
+      simp only [catSeries, List.zipWith_cons_cons, List.zipWith_nil_right, Except.ok.injEq] at h
+      subst h
+      have hn : a1.length = n₁ := ha a1 (by simp)
+      subst hn
+      simp only [Scaling.mk, Scaling.run, map_append_scan, scan_append_snd, List.map_append, List.map_cons, List.map_nil, List.length_append, zeros_add]
+      split <;> simp only [Scaling.mk, Scaling.run, map_append_scan, scan_append_snd, List.map_append, List.map_cons, List.map_nil, List.length_append, zeros_add, take_append_len, List.length_map, scan_length, zeros_length, List.length_replicate]
+
+/-- DepthToRate. -/
+theorem causal_DepthToRate : Causal (DepthToRate.model (α := α)) := by
+  intro p a b st n₁ n₂ o o₁ hl ha hb h h₁
+  unfold DepthToRate.model at h h₁
+  simp only at h h₁
+  match p, a, st, h₁ with
+  | [deltaT, area], [a1], [], h₁ =>
+    simp only [Except.ok.injEq] at h₁
+    subst h₁
+    match b, hl, h with
+    | [b1], _, h =>
+      simp only [catSeries, List.zipWith_cons_cons, List.zipWith_nil_right, Except.ok.injEq] at h
+      subst h
+      have hn : a1.length = n₁ := ha a1 (by simp)
+      subst hn
+      simp only [DepthToRate.run, map_append_scan, scan_append_snd, List.map_append, List.map_cons, List.map_nil, List.length_append, zeros_add]
+      split <;> simp only [DepthToRate.run, map_append_scan, scan_append_snd, List.map_append, List.map_cons, List.map_nil, List.length_append, zeros_add, take_append_len, List.length_map, scan_length, zeros_length, List.length_replicate]
+
+/-- Input. -/
+theorem causal_Input : Causal (InputNode.model (α := α)) := by
+  intro p a b st n₁ n₂ o o₁ hl ha hb h h₁
+  unfold InputNode.model at h h₁
+  simp only at h h₁
+  match p, a, st, h₁ with
+  | [], [a1], [], h₁ =>
+    simp only [Except.ok.injEq] at h₁
+    subst h₁
+    match b, hl, h with
+    | [b1], _, h =>
+      simp only [catSeries, List.zipWith_cons_cons, List.zipWith_nil_right, Except.ok.injEq] at h
+      subst h
+      have hn : a1.length = n₁ := ha a1 (by simp)
+      subst hn
+      simp only [InputNode.run, map_append_scan, scan_append_snd, List.map_append, List.map_cons, List.map_nil, List.length_append, zeros_add]
+      simp only [InputNode.run, map_append_scan, scan_append_snd, List.map_append, List.map_cons, List.map_nil, List.length_append, zeros_add, take_append_len, List.length_map, scan_length, zeros_length, List.length_replicate]
+
+/-- Sum. -/
+theorem causal_Sum : Causal (Sum.model (α := α)) := by
+  intro p a b st n₁ n₂ o o₁ hl ha hb h h₁
+  unfold Sum.model at h h₁
+  simp only at h h₁
+  match p, a, st, h₁ with
+  | [], [a1, a2], [], h₁ =>
+    simp only [Except.ok.injEq] at h₁
+    subst h₁
+    match b, hl, h with
+    | [b1, b2], _, h =>
+      simp only [catSeries, List.zipWith_cons_cons, List.zipWith_nil_right, Except.ok.injEq] at h
+      subst h
+      have e1 : a1.length = a2.length := ha.eq (by simp) (by simp)
+      have hn : a1.length = n₁ := ha a1 (by simp)
+      subst hn
+      simp only [Sum.run, zip_append_eq _ _ _ _ e1, map_append_scan, scan_append_snd, List.map_append, List.map_cons, List.map_nil, List.length_append, zeros_add]
+      simp only [Sum.run, zip_append_eq _ _ _ _ e1, map_append_scan, scan_append_snd, List.map_append, List.map_cons, List.map_nil, List.length_append, zeros_add, take_append_len, List.length_map, scan_length, zeros_length, List.length_replicate, zip_length_eq _ _ e1]
+
+/-- Gate. -/
+theorem causal_Gate : Causal (Gate.model (α := α)) := by
+  intro p a b st n₁ n₂ o o₁ hl ha hb h h₁
+  unfold Gate.model at h h₁
+  simp only at h h₁
+  match p, a, st, h₁ with
+  | [], [a1, a2], [], h₁ =>
+    simp only [Except.ok.injEq] at h₁
+    subst h₁
+    match b, hl, h with
+    | [b1, b2], _, h =>
+      simp only [catSeries, List.zipWith_cons_cons, List.zipWith_nil_right, Except.ok.injEq] at h
+      subst h
+      have e1 : a1.length = a2.length := ha.eq (by simp) (by simp)
+      have hn : a1.length = n₁ := ha a1 (by simp)
+      subst hn
+      simp only [Gate.run, zip_append_eq _ _ _ _ e1, map_append_scan, scan_append_snd, List.map_append, List.map_cons, List.map_nil, List.length_append, zeros_add]
+      simp only [Gate.run, zip_append_eq _ _ _ _ e1, map_append_scan, scan_append_snd, List.map_append, List.map_cons, List.map_nil, List.length_append, zeros_add, take_append_len, List.length_map, scan_length, zeros_length, List.length_replicate, zip_length_eq _ _ e1]
+
+/-- ComputeProportion. -/
+theorem causal_ComputeProportion : Causal (ComputeProportion.model (α := α)) := by
+  intro p a b st n₁ n₂ o o₁ hl ha hb h h₁
+  unfold ComputeProportion.model at h h₁
+  simp only at h h₁
+  match p, a, st, h₁ with
+  | [r], [a1, a2], [], h₁ =>
+    simp only [Except.ok.injEq] at h₁
+    subst h₁
+    match b, hl, h with
+    | [b1, b2], _, h =>
+      simp only [catSeries, List.zipWith_cons_cons, List.zipWith_nil_right, Except.ok.injEq] at h
+      subst h
+      have e1 : a1.length = a2.length := ha.eq (by simp) (by simp)
+      have hn : a1.length = n₁ := ha a1 (by simp)
+      subst hn
+      simp only [ComputeProportion.run, zip_append_eq _ _ _ _ e1, map_append_scan, scan_append_snd, List.map_append, List.map_cons, List.map_nil, List.length_append, zeros_add]
+      simp only [ComputeProportion.run, zip_append_eq _ _ _ _ e1, map_append_scan, scan_append_snd, List.map_append, List.map_cons, List.map_nil, List.length_append, zeros_add, take_append_len, List.length_map, scan_length, zeros_length, List.length_replicate, zip_length_eq _ _ e1]
+
+/-- BaseflowFilter. -/
+theorem causal_BaseflowFilter : Causal (BaseflowFilter.model (α := α)) := by
+  intro p a b st n₁ n₂ o o₁ hl ha hb h h₁
+  unfold BaseflowFilter.model at h h₁
+  simp only at h h₁
+  match p, a, st, h₁ with
+  | [], [a1], [], h₁ =>
+    simp only [Except.ok.injEq] at h₁
+    subst h₁
+    match b, hl, h with
+    | [b1], _, h =>
+      simp only [catSeries, List.zipWith_cons_cons, List.zipWith_nil_right, Except.ok.injEq] at h
+      subst h
+      have hn : a1.length = n₁ := ha a1 (by simp)
+      subst hn
+      simp only [BaseflowFilter.run, map_append_scan, scan_append_snd, List.map_append, List.map_cons, List.map_nil, List.length_append, zeros_add]
+      simp only [BaseflowFilter.run, map_append_scan, scan_append_snd, List.map_append, List.map_cons, List.map_nil, List.length_append, zeros_add, take_append_len, List.length_map, scan_length, zeros_length, List.length_replicate]
+
+/-- FixedPartition. -/
+theorem causal_FixedPartition : Causal (FixedPartition.model (α := α)) := by
+  intro p a b st n₁ n₂ o o₁ hl ha hb h h₁
+  unfold FixedPartition.model at h h₁
+  simp only at h h₁
+  match p, a, st, h₁ with
+  | [fraction], [a1], [], h₁ =>
+    simp only [Except.ok.injEq] at h₁
+    subst h₁
+    match b, hl, h with
+    | [b1], _, h =>
+      simp only [catSeries, List.zipWith_cons_cons, List.zipWith_nil_right, Except.ok.injEq] at h
+      subst h
+      have hn : a1.length = n₁ := ha a1 (by simp)
+      subst hn
+      simp only [FixedPartition.run, map_append_scan, scan_append_snd, List.map_append, List.map_cons, List.map_nil, List.length_append, zeros_add]
+      simp only [FixedPartition.run, map_append_scan, scan_append_snd, List.map_append, List.map_cons, List.map_nil, List.length_append, zeros_add, take_append_len, List.length_map, scan_length, zeros_length, List.length_replicate]
+
+/-- VariablePartition. -/
+theorem causal_VariablePartition : Causal (VariablePartition.model (α := α)) := by
+  intro p a b st n₁ n₂ o o₁ hl ha hb h h₁
+  unfold VariablePartition.model at h h₁
+  simp only at h h₁
+  match p, a, st, h₁ with
+  | [], [a1, a2], [], h₁ =>
+    simp only [Except.ok.injEq] at h₁
+    subst h₁
+    match b, hl, h with
+    | [b1, b2], _, h =>
+      simp only [catSeries, List.zipWith_cons_cons, List.zipWith_nil_right, Except.ok.injEq] at h
+      subst h
+      have e1 : a1.length = a2.length := ha.eq (by simp) (by simp)
+      have hn : a1.length = n₁ := ha a1 (by simp)
+      subst hn
+      simp only [VariablePartition.run, zip_append_eq _ _ _ _ e1, map_append_scan, scan_append_snd, List.map_append, List.map_cons, List.map_nil, List.length_append, zeros_add]
+      simp only [VariablePartition.run, zip_append_eq _ _ _ _ e1, map_append_scan, scan_append_snd, List.map_append, List.map_cons, List.map_nil, List.length_append, zeros_add, take_append_len, List.length_map, scan_length, zeros_length, List.length_replicate, zip_length_eq _ _ e1]
+
+/-- PartitionDemand. -/
+theorem causal_PartitionDemand : Causal (PartitionDemand.model (α := α)) := by
+  intro p a b st n₁ n₂ o o₁ hl ha hb h h₁
+  unfold PartitionDemand.model at h h₁
+  simp only at h h₁
+  match p, a, st, h₁ with
+  | [], [a1, a2], [], h₁ =>
+    simp only [Except.ok.injEq] at h₁
+    subst h₁
+    match b, hl, h with
+    | [b1, b2], _, h =>
+      simp only [catSeries, List.zipWith_cons_cons, List.zipWith_nil_right, Except.ok.injEq] at h
+      subst h
+      have e1 : a1.length = a2.length := ha.eq (by simp) (by simp)
+      have hn : a1.length = n₁ := ha a1 (by simp)
+      subst hn
+      simp only [PartitionDemand.run, zip_append_eq _ _ _ _ e1, map_append_scan, scan_append_snd, List.map_append, List.map_cons, List.map_nil, List.length_append, zeros_add]
+      simp only [PartitionDemand.run, zip_append_eq _ _ _ _ e1, map_append_scan, scan_append_snd, List.map_append, List.map_cons, List.map_nil, List.length_append, zeros_add, take_append_len, List.length_map, scan_length, zeros_length, List.length_replicate, zip_length_eq _ _ e1]
+
+/-- EmcDwc. -/
+theorem causal_EmcDwc : Causal (EmcDwc.model (α := α)) := by
+  intro p a b st n₁ n₂ o o₁ hl ha hb h h₁
+  unfold EmcDwc.model at h h₁
+  simp only at h h₁
+  match p, a, st, h₁ with
+  | [emc, dwc], [a1, a2], [], h₁ =>
+    simp only [Except.ok.injEq] at h₁
+    subst h₁
+    match b, hl, h with
+    | [b1, b2], _, h =>
+      simp only [catSeries, List.zipWith_cons_cons, List.zipWith_nil_right, Except.ok.injEq] at h
+      subst h
+      have e1 : a1.length = a2.length := ha.eq (by simp) (by simp)
+      have hn : a1.length = n₁ := ha a1 (by simp)
+      subst hn
+      simp only [EmcDwc.run, zip_append_eq _ _ _ _ e1, map_append_scan, scan_append_snd, List.map_append, List.map_cons, List.map_nil, List.length_append, zeros_add, ← List.replicate_append_replicate]
+      split <;> simp only [EmcDwc.run, zip_append_eq _ _ _ _ e1, map_append_scan, scan_append_snd, List.map_append, List.map_cons, List.map_nil, List.length_append, zeros_add, ← List.replicate_append_replicate, take_append_len, List.length_map, scan_length, zeros_length, List.length_replicate, zip_length_eq _ _ e1]
+
+/-- FixedConcentration. -/
+theorem causal_FixedConcentration : Causal (FixedConcentration.model (α := α)) := by
+  intro p a b st n₁ n₂ o o₁ hl ha hb h h₁
+  unfold FixedConcentration.model at h h₁
+  simp only at h h₁
+  match p, a, st, h₁ with
+  | [conc], [a1], [], h₁ =>
+    simp only [Except.ok.injEq] at h₁
+    subst h₁
+    match b, hl, h with
+    | [b1], _, h =>
+      simp only [catSeries, List.zipWith_cons_cons, List.zipWith_nil_right, Except.ok.injEq] at h
+      subst h
+      have hn : a1.length = n₁ := ha a1 (by simp)
+      subst hn
+      simp only [FixedConcentration.run, map_append_scan, scan_append_snd, List.map_append, List.map_cons, List.map_nil, List.length_append, zeros_add]
+      split <;> simp only [FixedConcentration.run, map_append_scan, scan_append_snd, List.map_append, List.map_cons, List.map_nil, List.length_append, zeros_add, take_append_len, List.length_map, scan_length, zeros_length, List.length_replicate]
+
+/-- PassLoadIfFlow. -/
+theorem causal_PassLoadIfFlow : Causal (PassLoadIfFlow.model (α := α)) := by
+  intro p a b st n₁ n₂ o o₁ hl ha hb h h₁
+  unfold PassLoadIfFlow.model at h h₁
+  simp only at h h₁
+  match p, a, st, h₁ with
+  | [sf], [a1, a2], [], h₁ =>
+    simp only [Except.ok.injEq] at h₁
+    subst h₁
+    match b, hl, h with
+    | [b1, b2], _, h =>
+      simp only [catSeries, List.zipWith_cons_cons, List.zipWith_nil_right, Except.ok.injEq] at h
+      subst h
+      have e1 : a1.length = a2.length := ha.eq (by simp) (by simp)
+      have hn : a1.length = n₁ := ha a1 (by simp)
+      subst hn
+      simp only [PassLoadIfFlow.run, zip_append_eq _ _ _ _ e1, map_append_scan, scan_append_snd, List.map_append, List.map_cons, List.map_nil, List.length_append, zeros_add]
+      split <;> simp only [PassLoadIfFlow.run, zip_append_eq _ _ _ _ e1, map_append_scan, scan_append_snd, List.map_append, List.map_cons, List.map_nil, List.length_append, zeros_add, take_append_len, List.length_map, scan_length, zeros_length, List.length_replicate, zip_length_eq _ _ e1]
+
+/-- SednetDissolvedNutrientGeneration. -/
+theorem causal_SednetDissolvedNutrientGeneration : Causal (DissolvedNutrients.model (α := α)) := by
+  intro p a b st n₁ n₂ o o₁ hl ha hb h h₁
+  unfold DissolvedNutrients.model at h h₁
+  simp only at h h₁
+  match p, a, st, h₁ with
+  | [emc, dwc], [a1, a2], [], h₁ =>
+    simp only [Except.ok.injEq] at h₁
+    subst h₁
+    match b, hl, h with
+    | [b1, b2], _, h =>
+      simp only [catSeries, List.zipWith_cons_cons, List.zipWith_nil_right, Except.ok.injEq] at h
+      subst h
+      have e1 : a1.length = a2.length := ha.eq (by simp) (by simp)
+      have hn : a1.length = n₁ := ha a1 (by simp)
+      subst hn
+      simp only [DissolvedNutrients.run, zip_append_eq _ _ _ _ e1, map_append_scan, scan_append_snd, List.map_append, List.map_cons, List.map_nil, List.length_append, zeros_add]
+      simp only [DissolvedNutrients.run, zip_append_eq _ _ _ _ e1, map_append_scan, scan_append_snd, List.map_append, List.map_cons, List.map_nil, List.length_append, zeros_add, take_append_len, List.length_map, scan_length, zeros_length, List.length_replicate, zip_length_eq _ _ e1]
+
+/-- SednetParticulateNutrientGeneration. -/
+theorem causal_SednetParticulateNutrientGeneration : Causal (ParticulateNutrients.model (α := α)) := by
+  intro p a b st n₁ n₂ o o₁ hl ha hb h h₁
+  unfold ParticulateNutrients.model at h h₁
+  simp only at h h₁
+  match p, a, st, h₁ with
+  | [area, nsc, hdr, ner, nssc, nerg, gdr, dwc, creams], [a1, a2, a3, a4, a5], [], h₁ =>
+    simp only [Except.ok.injEq] at h₁
+    subst h₁
+    match b, hl, h with
+    | [b1, b2, b3, b4, b5], _, h =>
+      simp only [catSeries, List.zipWith_cons_cons, List.zipWith_nil_right, Except.ok.injEq] at h
+      subst h
+      have e1 : a1.length = a2.length := ha.eq (by simp) (by simp)
+      have e2 : a1.length = a3.length := ha.eq (by simp) (by simp)
+      have e3 : a1.length = a4.length := ha.eq (by simp) (by simp)
+      have e4 : a1.length = a5.length := ha.eq (by simp) (by simp)
+      have hn : a1.length = n₁ := ha a1 (by simp)
+      subst hn
+      simp only [ParticulateNutrients.run, zip5_append _ _ _ _ _ _ _ _ _ _ e1 e2 e3 e4, map_append_scan, scan_append_snd, List.map_append, List.map_cons, List.map_nil, List.length_append, zeros_add]
+      simp only [ParticulateNutrients.run, zip5_append _ _ _ _ _ _ _ _ _ _ e1 e2 e3 e4, map_append_scan, scan_append_snd, List.map_append, List.map_cons, List.map_nil, List.length_append, zeros_add, take_append_len, List.length_map, scan_length, zeros_length, List.length_replicate, zip5_length _ _ _ _ _ e1 e2 e3 e4]
+
+/-- BankErosion. -/
+theorem causal_BankErosion : Causal (BankErosion.model (α := α)) := by
+  intro p a b st n₁ n₂ o o₁ hl ha hb h h₁
+  unfold BankErosion.model at h h₁
+  simp only at h h₁
+  match p, a, st, h₁ with
+  | [p1, p2, p3, p4, p5, p6, p7, p8, p9, p10, p11, p12, p13, p14], [a1, a2], [], h₁ =>
+    simp only [Except.ok.injEq] at h₁
+    subst h₁
+    match b, hl, h with
+    | [b1, b2], _, h =>
+      simp only [catSeries, List.zipWith_cons_cons, List.zipWith_nil_right, Except.ok.injEq] at h
+      subst h
+      have e1 : a1.length = a2.length := ha.eq (by simp) (by simp)
+      have hn : a1.length = n₁ := ha a1 (by simp)
+      subst hn
+      simp only [BankErosion.run, zip_append_eq _ _ _ _ e1, map_append_scan, scan_append_snd, List.map_append, List.map_cons, List.map_nil, List.length_append, zeros_add]
+      simp only [BankErosion.run, zip_append_eq _ _ _ _ e1, map_append_scan, scan_append_snd, List.map_append, List.map_cons, List.map_nil, List.length_append, zeros_add, take_append_len, List.length_map, scan_length, zeros_length, List.length_replicate, zip_length_eq _ _ e1]
+
+/-- USLEFineSedimentGeneration. -/
+theorem causal_USLEFineSedimentGeneration : Causal (UsleFine.model (α := α)) := by
+  intro p a b st n₁ n₂ o o₁ hl ha hb h h₁
+  unfold UsleFine.model at h h₁
+  simp only at h h₁
+  match p, a, st, h₁ with
+  | [p1, p2, p3, p4, p5, p6, p7, p8, p9, p10, p11, p12, p13, p14, p15, p16, p17, p18], [a1, a2, a3, a4, a5, a6, a7], [], h₁ =>
+    simp only [Except.ok.injEq] at h₁
+    subst h₁
+    match b, hl, h with
+    | [b1, b2, b3, b4, b5, b6, b7], _, h =>
+      simp only [catSeries, List.zipWith_cons_cons, List.zipWith_nil_right, Except.ok.injEq] at h
+      subst h
+      have e1 : a1.length = a2.length := ha.eq (by simp) (by simp)
+      have e2 : a1.length = a3.length := ha.eq (by simp) (by simp)
+      have e3 : a1.length = a4.length := ha.eq (by simp) (by simp)
+      have e4 : a1.length = a5.length := ha.eq (by simp) (by simp)
+      have e5 : a1.length = a6.length := ha.eq (by simp) (by simp)
+      have e6 : a1.length = a7.length := ha.eq (by simp) (by simp)
+      have hn : a1.length = n₁ := ha a1 (by simp)
+      subst hn
+      simp only [UsleFine.run, zip5_append _ _ _ _ _ _ _ _ _ _ e1 e2 e3 e4, zip_append_eq _ _ _ _ (e5.symm.trans e6), zip_append_eq _ _ _ _ ((zip5_length _ _ _ _ _ e1 e2 e3 e4).trans (e5.trans (zip_length_eq _ _ (e5.symm.trans e6)).symm)), map_append_scan, scan_append_snd, List.map_append, List.map_cons, List.map_nil, List.length_append, zeros_add]
+      simp only [UsleFine.run, zip5_append _ _ _ _ _ _ _ _ _ _ e1 e2 e3 e4, zip_append_eq _ _ _ _ (e5.symm.trans e6), zip_append_eq _ _ _ _ ((zip5_length _ _ _ _ _ e1 e2 e3 e4).trans (e5.trans (zip_length_eq _ _ (e5.symm.trans e6)).symm)), map_append_scan, scan_append_snd, List.map_append, List.map_cons, List.map_nil, List.length_append, zeros_add, take_append_len, List.length_map, scan_length, zeros_length, List.length_replicate, List.length_zip, zip5_length _ _ _ _ _ e1 e2 e3 e4, zip_length_eq _ _ (e5.symm.trans e6), ← e5, Nat.min_self]
+
+/-- DynamicSednetGully. -/
+theorem causal_DynamicSednetGully : Causal (SednetGully.model (α := α)) := by
+  intro p a b st n₁ n₂ o o₁ hl ha hb h h₁
+  unfold SednetGully.model SednetGully.mk at h h₁
+  simp only at h h₁
+  match p, a, st, h₁ with
+  | [yd, ge, area, af, supply, pf, mpf, ltrf, drpf, sf, sc, ts], [a1, a2, a3, a4], [], h₁ =>
+    simp only [Except.ok.injEq] at h₁
+    subst h₁
+    match b, hl, h with
+    | [b1, b2, b3, b4], _, h =>
+      simp only [catSeries, List.zipWith_cons_cons, List.zipWith_nil_right, Except.ok.injEq] at h
+      subst h
+      have e1 : a1.length = a2.length := ha.eq (by simp) (by simp)
+      have e2 : a1.length = a3.length := ha.eq (by simp) (by simp)
+      have e3 : a1.length = a4.length := ha.eq (by simp) (by simp)
+      have hn : a1.length = n₁ := ha a1 (by simp)
+      subst hn
+      simp only [SednetGully.mk, SednetGully.run, zip4_append _ _ _ _ _ _ _ _ e1 e2 e3, map_append_scan, scan_append_snd, List.map_append, List.map_cons, List.map_nil, List.length_append, zeros_add]
+      simp only [SednetGully.mk, SednetGully.run, zip4_append _ _ _ _ _ _ _ _ e1 e2 e3, map_append_scan, scan_append_snd, List.map_append, List.map_cons, List.map_nil, List.length_append, zeros_add, take_append_len, List.length_map, scan_length, zeros_length, List.length_replicate, zip4_length _ _ _ _ e1 e2 e3]
+
+/-- DynamicSednetGullyAlt. -/
+theorem causal_DynamicSednetGullyAlt : Causal (SednetGully.modelAlt (α := α)) := by
+  intro p a b st n₁ n₂ o o₁ hl ha hb h h₁
+  unfold SednetGully.modelAlt SednetGully.mk at h h₁
+  simp only at h h₁
+  match p, a, st, h₁ with
+  | [yd, ge, area, af, supply, pf, mpf, ltrf, drpf, sf, sc, ts], [a1, a2, a3, a4], [], h₁ =>
+    simp only [Except.ok.injEq] at h₁
+    subst h₁
+    match b, hl, h with
+    | [b1, b2, b3, b4], _, h =>
+      simp only [catSeries, List.zipWith_cons_cons, List.zipWith_nil_right, Except.ok.injEq] at h
+      subst h
+      have e1 : a1.length = a2.length := ha.eq (by simp) (by simp)
+      have e2 : a1.length = a3.length := ha.eq (by simp) (by simp)
+      have e3 : a1.length = a4.length := ha.eq (by simp) (by simp)
+      have hn : a1.length = n₁ := ha a1 (by simp)
+      subst hn
+      simp only [SednetGully.mk, SednetGully.run, zip4_append _ _ _ _ _ _ _ _ e1 e2 e3, map_append_scan, scan_append_snd, List.map_append, List.map_cons, List.map_nil, List.length_append, zeros_add]
+      simp only [SednetGully.mk, SednetGully.run, zip4_append _ _ _ _ _ _ _ _ e1 e2 e3, map_append_scan, scan_append_snd, List.map_append, List.map_cons, List.map_nil, List.length_append, zeros_add, take_append_len, List.length_map, scan_length, zeros_length, List.length_replicate, zip4_length _ _ _ _ e1 e2 e3]
+
+/-- ClimateVariables. -/
+theorem causal_ClimateVariables : Causal (Climate.model (α := α)) := by
+  intro p a b st n₁ n₂ o o₁ hl ha hb h h₁
+  unfold Climate.model at h h₁
+  simp only at h h₁
+  match p, a, st, h₁ with
+  | [elevation], [a1, a2], [], h₁ =>
+    simp only [Except.ok.injEq] at h₁
+    subst h₁
+    match b, hl, h with
+    | [b1, b2], _, h =>
+      simp only [catSeries, List.zipWith_cons_cons, List.zipWith_nil_right, Except.ok.injEq] at h
+      subst h
+      have e1 : a1.length = a2.length := ha.eq (by simp) (by simp)
+      have hn : a1.length = n₁ := ha a1 (by simp)
+      subst hn
+      simp only [Climate.run, zip_append_eq _ _ _ _ e1, map_append_scan, scan_append_snd, List.map_append, List.map_cons, List.map_nil, List.length_append, zeros_add]
+      simp only [Climate.run, zip_append_eq _ _ _ _ e1, map_append_scan, scan_append_snd, List.map_append, List.map_cons, List.map_nil, List.length_append, zeros_add, take_append_len, List.length_map, scan_length, zeros_length, List.length_replicate, zip_length_eq _ _ e1]
+
+/-- StorageTrapAll: the stored mass enters the FIRST element only. -/
+theorem causal_StorageTrapAll : Causal (StorageTrapAll.model (α := α)) := by
+  intro p a b st n₁ n₂ o o₁ hl ha hb h h₁
+  unfold StorageTrapAll.model at h h₁
+  simp only at h h₁
+  match p, a, st, h₁ with
+  | [], [a1, a2, a3, a4], [s], h₁ =>
+    match b, hl, h with
+    | [b1, b2, b3, b4], _, h =>
+      simp only [catSeries, List.zipWith_cons_cons, List.zipWith_nil_right] at h
+      have hn : a1.length = n₁ := ha a1 (by simp)
+      subst hn
+      cases a1 with
+      | nil =>
+        simp only [StorageTrapAll.trapped, Except.ok.injEq] at h₁
+        subst h₁
+        simp only [List.nil_append] at h
+        cases b1 with
+        | nil => simp only [StorageTrapAll.trapped, Except.ok.injEq] at h; subst h; rfl
+        | cons y ys => simp only [StorageTrapAll.trapped, Except.ok.injEq] at h; subst h; simp
+      | cons x xs =>
+        simp only [StorageTrapAll.trapped, Except.ok.injEq] at h₁
+        subst h₁
+        simp only [List.cons_append, StorageTrapAll.trapped, Except.ok.injEq] at h
+        subst h
+        simp only [List.map_cons, List.map_nil, List.length_cons, List.length_append, List.take_succ_cons]
+        have e : xs.length + b1.length + 1 = (xs.length + 1) + b1.length := by omega
+        rw [e, zeros_add]
+        simp only [take_append_len, zeros_length, List.take_succ_cons, ← List.length_cons]
+
+/-- Lag -/
+theorem causal_Lag : Causal (Lag.model (α := α)) := by
+  intro p a b st n₁ n₂ o o₁ hl ha hb h h₁
+  unfold Lag.model at h h₁
+  simp only at h h₁
+  match p, a, h₁ with
+  | [tl], [ia], h₁ =>
+    match b, hl, h with
+    | [ib], _, h =>
+      simp only [catSeries, List.zipWith_cons_cons, List.zipWith_nil_right] at h h₁
+      have hn : ia.length = n₁ := ha ia (by simp)
+      subst hn
+      cases hr1 : Lag.run tl ia st with
+      | error e => rw [hr1] at h₁; simp at h₁
+      | ok r₁ =>
+        rw [hr1] at h₁
+        simp only [Except.ok.injEq] at h₁
+        subst h₁
+        -- the second part can be run from the buffer left by the first: same lag, buffer of the same length
+        have hlen : r₁.outflow.length = ia.length ∧ ∃ r₂, Lag.run tl ib r₁.lagged = .ok r₂ := by
+          unfold Lag.run at hr1 ⊢
+          simp only at hr1 ⊢
+          by_cases h0 : (Num.toInt tl == 0) = true
+          · simp only [h0, if_true, Except.ok.injEq] at hr1 ⊢
+            subst hr1; exact ⟨rfl, _, rfl⟩
+          · simp only [h0, Bool.false_eq_true, if_false] at hr1 ⊢
+            by_cases hneg : Num.toInt tl < 0
+            · simp [hneg] at hr1
+            · simp only [hneg, if_false] at hr1 ⊢
+              by_cases hs : st.length < (Num.toInt tl).toNat
+              · simp [hs] at hr1
+              · simp only [hs, if_false, Except.ok.injEq] at hr1
+                subst hr1
+                refine ⟨(OW.Proofs.Lag.lagCore_outflow _ ia st _ (zeros_length _)).1, ?_⟩
+                rw [(OW.Proofs.Lag.lagCore_lagged _ ia st _ (by omega)).1]
+                simp only [hs, if_false]
+                exact ⟨_, rfl⟩
+        obtain ⟨hol, r₂, hr2⟩ := hlen
+        rw [OW.Proofs.Lag.run_append tl ia ib st r₁ r₂ hr1 hr2] at h
+        simp only [Except.ok.injEq] at h
+        subst h
+        simp only [List.map_cons, List.map_nil, take_append_len hol]
+/-- GR4J -/
+theorem causal_GR4J : Causal (GR4J.model (α := α)) := by
+  intro p a b st n₁ n₂ o o₁ hl ha hb h h₁
+  unfold GR4J.model at h h₁
+  simp only at h h₁
+  match p, a, st, h₁ with
+  | [x1, x2, x3, x4], [a1, a2], s :: r :: n1f :: n2f :: rest, h₁ =>
+    match b, hl, h with
+    | [b1, b2], _, h =>
+      simp only [catSeries, List.zipWith_cons_cons, List.zipWith_nil_right] at h₁ h
+      have e1 : a1.length = a2.length := ha.eq (by simp) (by simp)
+      have hn : a1.length = n₁ := ha a1 (by simp)
+      subst hn
+      by_cases hc : Num.toInt n1f ≤ 0 ∨ Num.toInt n2f ≤ 0
+      · rw [if_pos hc] at h₁; simp at h₁
+      · rw [if_neg hc] at h₁ h
+        by_cases hr : rest.length < (Num.toInt n1f).toNat + (Num.toInt n2f).toNat
+        · rw [if_pos hr] at h₁; simp at h₁
+        · rw [if_neg hr] at h₁ h
+          simp only [Except.ok.injEq] at h₁ h
+          subst h₁; subst h
+          simp only [GR4J.run, zip_append_eq _ _ _ _ e1, map_append_scan, List.map_cons, List.map_nil]
+          simp only [take_append_len, List.length_map, scan_length, zip_length_eq _ _ e1]
+
+/-- StorageRouting -/
+theorem causal_StorageRouting : Causal (StorageRouting.model (α := α)) := by
+  intro p a b st n₁ n₂ o o₁ hl ha hb h h₁
+  unfold StorageRouting.model at h h₁
+  simp only at h h₁
+  match p, a, st, h₁ with
+  | [bias, k, x, area, dead, dt], [a1, a2, a3, a4], [s, pi, po], h₁ =>
+    match b, hl, h with
+    | [b1, b2, b3, b4], _, h =>
+      simp only [catSeries, List.zipWith_cons_cons, List.zipWith_nil_right] at h₁ h
+      have e1 : a1.length = a2.length := ha.eq (by simp) (by simp)
+      have e2 : a1.length = a3.length := ha.eq (by simp) (by simp)
+      have e3 : a1.length = a4.length := ha.eq (by simp) (by simp)
+      have hn : a1.length = n₁ := ha a1 (by simp)
+      subst hn
+      rw [zip4_append _ _ _ _ _ _ _ _ e1 e2 e3, C06.storageRouting_split] at h
+      have hlen : (StorageRouting.run bias k x area dead dt s (zip4 a1 a2 a3 a4)).2.length = a1.length := by
+        unfold StorageRouting.run; rw [scan_length, zip4_length _ _ _ _ e1 e2 e3]
+      generalize StorageRouting.run bias k x area dead dt s (zip4 a1 a2 a3 a4) = r1 at h h₁ hlen
+      obtain ⟨f1, outs1⟩ := r1
+      cases f1 with
+      | error e => simp at h₁
+      | ok f =>
+        simp only [Except.ok.injEq] at h₁
+        subst h₁
+        simp only at h hlen
+        generalize scan (StorageRouting.step (StorageRouting.setup bias k x dt) k area dead dt) (Except.ok f) (zip4 b1 b2 b3 b4) = r2 at h
+        obtain ⟨f2, outs2⟩ := r2
+        cases f2 with
+        | error e => simp at h
+        | ok g =>
+          simp only [Except.ok.injEq] at h
+          subst h
+          simp only [List.map_append, List.map_cons, List.map_nil]
+          simp only [take_append_len, List.length_map, hlen]
+
+/-- InstreamDissolvedNutrientDecay (both the decay-disabled and the decay-enabled branch): `prevVolume` is seeded from
+the first step of the call, which the truncated run shares with the whole run. -/
+theorem causal_InstreamDissolvedNutrientDecay : Causal (InstreamDissolvedNutrient.model (α := α)) := by
+  intro p a b st n₁ n₂ o o₁ hl ha hb h h₁
+  unfold InstreamDissolvedNutrient.model at h h₁
+  simp only at h h₁
+  match p, a, st, h₁ with
+  | [dd, psl, lh, lw, ll, uv, dur], [a1, a2, a3, a4, a5], [sm], h₁ =>
+    match b, hl, h with
+    | [b1, b2, b3, b4, b5], _, h =>
+      simp only [catSeries, List.zipWith_cons_cons, List.zipWith_nil_right] at h₁ h
+      have e1 : a1.length = a2.length := ha.eq (by simp) (by simp)
+      have e2 : a1.length = a3.length := ha.eq (by simp) (by simp)
+      have e3 : a1.length = a4.length := ha.eq (by simp) (by simp)
+      have hn : a1.length = n₁ := ha a1 (by simp)
+      subst hn
+      cases a3 with
+      | nil => simp at h₁
+      | cons v0 va =>
+        simp only [List.cons_append] at h
+        simp only at h₁ h
+        by_cases hdd : dd < (0.5 : α)
+        · simp only [if_pos hdd, Except.ok.injEq] at h₁ h
+          subst h₁; subst h
+          simp only [LumpedConstituent.run, ← List.cons_append, zip4_append _ _ _ _ _ _ _ _ e1 e3 e2, map_append_scan,
+            List.map_cons, List.map_nil, List.length_append, zeros_add]
+          simp only [take_append_len, List.length_map, scan_length, zeros_length, zip4_length _ _ _ _ e1 e3 e2]
+        · simp only [if_neg hdd, Except.ok.injEq] at h₁ h
+          subst h₁; subst h
+          simp only [← List.cons_append, zip4_append _ _ _ _ _ _ _ _ e1 e2 e3, map_append_scan,
+            List.map_cons, List.map_nil, List.length_append, zeros_add]
+          simp only [take_append_len, List.length_map, scan_length, zeros_length, zip4_length _ _ _ _ e1 e2 e3]
+/-- Storage -/
+theorem causal_Storage : Causal (Storage.model (α := α)) := by
+  intro p a b st n₁ n₂ o o₁ hl ha hb h h₁
+  unfold Storage.model at h h₁
+  simp only at h h₁
+  match p, a, st, h₁ with
+  | deltaT :: nLVAf :: tbl, [a1, a2, a3, a4, a5, a6], [cv, lv, ar], h₁ =>
+    match b, hl, h with
+    | [b1, b2, b3, b4, b5, b6], _, h =>
+      simp only [catSeries, List.zipWith_cons_cons, List.zipWith_nil_right, Storage.splitTables] at h₁ h
+      have e1 : a1.length = a2.length := ha.eq (by simp) (by simp)
+      have e2 : a1.length = a3.length := ha.eq (by simp) (by simp)
+      have e3 : a1.length = a4.length := ha.eq (by simp) (by simp)
+      have hn : a1.length = n₁ := ha a1 (by simp)
+      subst hn
+      by_cases hneg : Num.toInt nLVAf < 0
+      · rw [if_pos hneg] at h₁; simp at h₁
+      · rw [if_neg hneg] at h₁ h
+        by_cases hlen : (tbl.length != 5 * (Num.toInt nLVAf).toNat) = true
+        · rw [if_pos hlen] at h₁; simp at h₁
+        · rw [if_neg hlen] at h₁ h
+          generalize hm : Storage.mkTables (α := α) _ _ _ _ _ = mt at h₁ h
+          cases mt with
+          | error e => simp at h₁
+          | ok t =>
+            simp only at h₁ h
+            generalize hc : Storage.checkConfig (α := α) _ _ = cc at h₁ h
+            cases cc with
+            | error e => simp at h₁
+            | ok cfg =>
+              cases cfg with
+              | invalid =>
+                simp only [Except.ok.injEq] at h₁ h
+                subst h₁; subst h
+                simp only [List.length_append, zeros_add, List.map_cons, List.map_nil, take_append_len, zeros_length]
+              | ok =>
+                simp only at h₁ h
+                cases hr1 : Storage.run t false Storage.fuelOuter Storage.fuelInner deltaT cv (zip4 a1 a2 a3 a4) with
+                | error e => rw [hr1] at h₁; simp at h₁
+                | ok r₁ =>
+                  rw [hr1] at h₁
+                  simp only [Except.ok.injEq] at h₁
+                  subst h₁
+                  rw [zip4_append _ _ _ _ _ _ _ _ e1 e2 e3] at h
+                  cases hr : Storage.run t false Storage.fuelOuter Storage.fuelInner deltaT cv (zip4 a1 a2 a3 a4 ++ zip4 b1 b2 b3 b4) with
+                  | error e => rw [hr] at h; simp at h
+                  | ok r =>
+                    rw [hr] at h
+                    simp only [Except.ok.injEq] at h
+                    subst h
+                    have hp := OW.Proofs.StorageHot.run_prefix t false _ _ deltaT cv _ _ r r₁ hr hr1
+                    rw [zip4_length _ _ _ _ e1 e2 e3] at hp
+                    simp only [List.map_cons, List.map_nil, ← List.map_take, hp]
+/-- RatingCurvePartition -/
+theorem causal_RatingCurvePartition : Causal (RatingCurvePartition.model (α := α)) := by
+  intro p a b st n₁ n₂ o o₁ hl ha hb h h₁
+  unfold RatingCurvePartition.model at h h₁
+  simp only at h h₁
+  cases hd : RatingCurvePartition.decode p with
+  | none => rw [hd] at h₁; simp at h₁
+  | some t =>
+    obtain ⟨xs, ys⟩ := t
+    rw [hd] at h₁ h
+    match a, st, h₁ with
+    | [a1], [], h₁ =>
+      match b, hl, h with
+      | [b1], _, h =>
+        simp only [catSeries, List.zipWith_cons_cons, List.zipWith_nil_right] at h₁ h
+        have hn : a1.length = n₁ := ha a1 (by simp)
+        subst hn
+        cases hr1 : RatingCurvePartition.run xs ys a1 with
+        | error e => rw [hr1] at h₁; simp at h₁
+        | ok r1 =>
+          rw [hr1] at h₁
+          simp only [Except.ok.injEq] at h₁
+          subst h₁
+          cases hr : RatingCurvePartition.run xs ys (a1 ++ b1) with
+          | error e => rw [hr] at h; simp at h
+          | ok r =>
+            rw [hr] at h
+            simp only [Except.ok.injEq] at h
+            subst h
+            simp only [List.map_cons, List.map_nil, ← List.map_take, ratingCurve_run_prefix xs ys a1 b1 r r1 hr hr1]
+
+/-- DateGenerator: the dates are generated from the start date in the parameters and the NUMBER of ticks; the first
+`n₁` rows do not depend on how many ticks follow. (Hot-start continuity is not a property of this kernel: it has no
+state, every call starts again from the start date of the parameters.) -/
+theorem causal_DateGenerator : Causal (DateGenerator.model (α := α)) := by
+  intro p a b st n₁ n₂ o o₁ hl ha hb h h₁
+  unfold DateGenerator.model at h h₁
+  simp only at h h₁
+  match p, a, st, h₁ with
+  | [d, m, y], [a1], [], h₁ =>
+    match b, hl, h with
+    | [b1], _, h =>
+      simp only [catSeries, List.zipWith_cons_cons, List.zipWith_nil_right, List.length_append] at h₁ h
+      have hn : a1.length = n₁ := ha a1 (by simp)
+      subst hn
+      cases hr1 : Dates.run a1.length ⟨Num.toInt d, Num.toInt m, Num.toInt y⟩ with
+      | none => rw [hr1] at h₁; simp at h₁
+      | some rows₁ =>
+        rw [hr1] at h₁
+        simp only [Except.ok.injEq] at h₁
+        subst h₁
+        cases hr : Dates.run (a1.length + b1.length) ⟨Num.toInt d, Num.toInt m, Num.toInt y⟩ with
+        | none => rw [hr] at h; simp at h
+        | some rows =>
+          rw [hr] at h
+          simp only [Except.ok.injEq] at h
+          subst h
+          simp only [List.map_cons, List.map_nil, ← List.map_take, dates_run_prefix _ _ _ rows rows₁ hr hr1]
+/-! ## DateGenerator is not hot-startable (it has no state) -/
+
+theorem toInt_real_natCast (n : ℕ) : Num.toInt ((n : ℕ) : ℝ) = (n : Int) := by
+  show (if (0:ℝ) ≤ (n:ℝ) then ⌊(n:ℝ)⌋ else ⌈(n:ℝ)⌉) = (n:Int)
+  rw [if_pos (Nat.cast_nonneg n)]
+  exact Int.floor_natCast n
+
+/-- DateGenerator has no state: a second call starts again at the start date of the parameters, so a split run repeats
+the first dates instead of continuing (start date 1 Jan 2001, two ticks: the whole run gives days 1, 2; the split run 1, 1). -/
+theorem hotstart_DateGenerator_counterexample : ¬ HotStart (DateGenerator.model (α := ℝ)) := by
+  intro h
+  have e1 : Num.toInt ((1 : ℕ) : ℝ) = 1 := toInt_real_natCast 1
+  have e2 : Num.toInt ((2001 : ℕ) : ℝ) = 2001 := toInt_real_natCast 2001
+  have r1 : Dates.run 1 ⟨1, 1, 2001⟩ = some [⟨1, 1, 2001, 1⟩] := by decide
+  have r2 : Dates.run 2 ⟨1, 1, 2001⟩ = some [⟨1, 1, 2001, 1⟩, ⟨2, 1, 2001, 2⟩] := by decide
+  have run1 : (DateGenerator.model (α := ℝ)).run [((1 : ℕ) : ℝ), ((1 : ℕ) : ℝ), ((2001 : ℕ) : ℝ)] [[0]] [] =
+      .ok { outputs := [[Num.ofInt 1], [Num.ofInt 1], [Num.ofInt 2001], [Num.ofInt 1]], states := [] } := by
+    unfold DateGenerator.model
+    simp only [List.length_cons, List.length_nil, e1, e2, r1, List.map_cons, List.map_nil]
+  have run2 : (DateGenerator.model (α := ℝ)).run [((1 : ℕ) : ℝ), ((1 : ℕ) : ℝ), ((2001 : ℕ) : ℝ)] [[0, 0]] [] =
+      .ok { outputs := [[Num.ofInt 1, Num.ofInt 2], [Num.ofInt 1, Num.ofInt 1], [Num.ofInt 2001, Num.ofInt 2001],
+                        [Num.ofInt 1, Num.ofInt 2]], states := [] } := by
+    unfold DateGenerator.model
+    simp only [List.length_cons, List.length_nil, e1, e2, r2, List.map_cons, List.map_nil]
+  obtain ⟨o, ho, hout, _⟩ := h _ [[0]] [[0]] [] 1 1 _ _ rfl
+    (by intro s hs; simp at hs; subst hs; rfl) (by intro s hs; simp at hs; subst hs; rfl) run1 run1
+  simp only [catSeries, List.zipWith_cons_cons, List.zipWith_nil_right, List.cons_append, List.nil_append] at ho hout
+  rw [run2] at ho
+  simp only [Except.ok.injEq] at ho
+  subst ho
+  simp only [List.cons.injEq, and_true] at hout
+  have := hout.1.2
+  have k : (Num.ofInt 2 : ℝ) = 2 := by show ((2 : Int) : ℝ) = 2; norm_num
+  have k1 : (Num.ofInt 1 : ℝ) = 1 := by show ((1 : Int) : ℝ) = 1; norm_num
+  rw [k, k1] at this
+  norm_num at this
+/-! ## Summary over the catalogue -/
+
+/-- the 41 catalogue models that have a Go case generator and a Lean kernel model (checks/models.py `ALL_MODELS`, same order) -/
+def catalogue : List (KModel α) :=
+  [ Scaling.model, BankErosion.model, BaseflowFilter.model, Climate.model,
+    ComputeProportion.model, ConstituentDecay.model, DateGenerator.model, Scaling.deliveryRatio,
+    DepthToRate.model, SednetGully.model, SednetGully.modelAlt, EmcDwc.model,
+    FixedConcentration.model, FixedPartition.model, GR4J.model, Gate.model,
+    InputNode.model, InstreamCoarseSediment.model, InstreamDissolvedNutrient.model, InstreamFineSediment.model,
+    InstreamParticulateNutrient.model, Lag.model, LumpedConstituent.model, Muskingum.model,
+    PartitionDemand.model, PassLoadIfFlow.model, RatingCurvePartition.model, Coeff.model,
+    Sacramento.model, DissolvedNutrients.model, ParticulateNutrients.model, Simhyd.model,
+    Storage.model, StorageDissolvedDecay.model, StorageParticulateTrapping.model, StorageRouting.model,
+    StorageTrapAll.model, Sum.model, Surm.model, UsleFine.model,
+    VariablePartition.model ]
+
+theorem catalogue_names :
+    (catalogue (α := α)).map (·.name) =
+      ["ApplyScalingFactor", "BankErosion", "BaseflowFilter", "ClimateVariables", "ComputeProportion", "ConstituentDecay",
+      "DateGenerator", "DeliveryRatio", "DepthToRate", "DynamicSednetGully", "DynamicSednetGullyAlt", "EmcDwc",
+      "FixedConcentration", "FixedPartition", "GR4J", "Gate", "Input", "InstreamCoarseSediment",
+      "InstreamDissolvedNutrientDecay", "InstreamFineSediment", "InstreamParticulateNutrient", "Lag", "LumpedConstituentRouting", "Muskingum",
+      "PartitionDemand", "PassLoadIfFlow", "RatingCurvePartition", "RunoffCoefficient", "Sacramento", "SednetDissolvedNutrientGeneration",
+      "SednetParticulateNutrientGeneration", "Simhyd", "Storage", "StorageDissolvedDecay", "StorageParticulateTrapping", "StorageRouting",
+      "StorageTrapAll", "Sum", "Surm", "USLEFineSedimentGeneration", "VariablePartition"] := rfl
+
+/-- **C14, causality, every catalogue model** (any arithmetic `Num α`, every parameter column, state row, series, truncation
+point): the first `n₁` outputs of a run do not depend on the inputs after step `n₁`. -/
+theorem causal_catalogue : ∀ km ∈ catalogue (α := α), Causal km := by
+  intro km hkm
+  simp only [catalogue, List.mem_cons, List.not_mem_nil, or_false] at hkm
+  rcases hkm with rfl | rfl | rfl | rfl | rfl | rfl | rfl | rfl | rfl | rfl | rfl | rfl | rfl | rfl | rfl | rfl | rfl | rfl | rfl | rfl | rfl | rfl | rfl | rfl | rfl | rfl | rfl | rfl | rfl | rfl | rfl | rfl | rfl | rfl | rfl | rfl | rfl | rfl | rfl | rfl | rfl
+  · exact causal_ApplyScalingFactor
+  · exact causal_BankErosion
+  · exact causal_BaseflowFilter
+  · exact causal_ClimateVariables
+  · exact causal_ComputeProportion
+  · exact causal_ConstituentDecay
+  · exact causal_DateGenerator
+  · exact causal_DeliveryRatio
+  · exact causal_DepthToRate
+  · exact causal_DynamicSednetGully
+  · exact causal_DynamicSednetGullyAlt
+  · exact causal_EmcDwc
+  · exact causal_FixedConcentration
+  · exact causal_FixedPartition
+  · exact causal_GR4J
+  · exact causal_Gate
+  · exact causal_Input
+  · exact causal_InstreamCoarseSediment
+  · exact causal_InstreamDissolvedNutrientDecay
+  · exact causal_InstreamFineSediment
+  · exact causal_InstreamParticulateNutrient
+  · exact causal_Lag
+  · exact causal_LumpedConstituentRouting
+  · exact causal_Muskingum
+  · exact causal_PartitionDemand
+  · exact causal_PassLoadIfFlow
+  · exact causal_RatingCurvePartition
+  · exact causal_RunoffCoefficient
+  · exact causal_Sacramento
+  · exact causal_SednetDissolvedNutrientGeneration
+  · exact causal_SednetParticulateNutrientGeneration
+  · exact causal_Simhyd
+  · exact causal_Storage
+  · exact causal_StorageDissolvedDecay
+  · exact causal_StorageParticulateTrapping
+  · exact causal_StorageRouting
+  · exact causal_StorageTrapAll
+  · exact causal_Sum
+  · exact causal_Surm
+  · exact causal_USLEFineSedimentGeneration
+  · exact causal_VariablePartition
+
+/-- every registered kernel model is in the catalogue list, or is one of the two runnable forms of the GR4J
+specification (OW/Spec/GR4J.lean, not models of Go code) -/
+theorem registry_covered : ∀ km ∈ Kernels.all (α := α),
+    km ∈ catalogue (α := α) ∨ km.name = "GR4J#spec" ∨ km.name = "GR4J#published" := by
+  intro km hkm
+  simp only [Kernels.all, Groups.Constituent.models, Groups.FlowRouting.models, Groups.Conversion.models, Groups.RR.models,
+    Groups.Storage.models, Groups.Climate.models, Groups.Misc.models, List.cons_append, List.nil_append, List.mem_cons,
+    List.not_mem_nil, or_false] at hkm
+  simp only [catalogue, List.mem_cons, List.not_mem_nil, or_false]
+  rcases hkm with rfl | rfl | rfl | rfl | rfl | rfl | rfl | rfl | rfl | rfl | rfl | rfl | rfl | rfl | rfl | rfl | rfl | rfl | rfl | rfl | rfl | rfl | rfl | rfl | rfl | rfl | rfl | rfl | rfl | rfl | rfl | rfl | rfl | rfl | rfl | rfl | rfl | rfl | rfl | rfl | rfl | rfl | rfl <;> first | (left; simp) | (right; left; rfl) | (right; right; rfl)
+
+/-- the catalogue models for which hot-start continuity holds without restriction (at ℝ; see OW/Props/C06.lean for the
+statements over an arbitrary `Num α`) -/
+noncomputable def hotStartCatalogue : List (KModel ℝ) :=
+  [ Scaling.model, BankErosion.model, BaseflowFilter.model, Climate.model,
+    ComputeProportion.model, ConstituentDecay.model, Scaling.deliveryRatio, DepthToRate.model,
+    SednetGully.model, SednetGully.modelAlt, EmcDwc.model, FixedConcentration.model,
+    FixedPartition.model, GR4J.model, Gate.model, InputNode.model,
+    InstreamCoarseSediment.model, InstreamParticulateNutrient.model, Lag.model, LumpedConstituent.model,
+    Muskingum.model, PartitionDemand.model, PassLoadIfFlow.model, RatingCurvePartition.model,
+    Coeff.model, DissolvedNutrients.model, ParticulateNutrients.model, Simhyd.model,
+    Storage.model, StorageDissolvedDecay.model, StorageParticulateTrapping.model, StorageTrapAll.model,
+    Sum.model, Surm.model, UsleFine.model, VariablePartition.model ]
+
+/-- the catalogue models for which `HotStart` is false as stated; each has a `…_partial` theorem in OW/Props/C06.lean (or, for
+DateGenerator, no state at all: every call restarts at the start date given in the parameters) -/
+def hotStartExceptions : List String := ["DateGenerator", "InstreamDissolvedNutrientDecay", "InstreamFineSediment", "Sacramento", "StorageRouting"]
+
+theorem hotStartCatalogue_names :
+    hotStartCatalogue.map (·.name) =
+      ["ApplyScalingFactor", "BankErosion", "BaseflowFilter", "ClimateVariables", "ComputeProportion", "ConstituentDecay",
+      "DeliveryRatio", "DepthToRate", "DynamicSednetGully", "DynamicSednetGullyAlt", "EmcDwc", "FixedConcentration",
+      "FixedPartition", "GR4J", "Gate", "Input", "InstreamCoarseSediment", "InstreamParticulateNutrient",
+      "Lag", "LumpedConstituentRouting", "Muskingum", "PartitionDemand", "PassLoadIfFlow", "RatingCurvePartition",
+      "RunoffCoefficient", "SednetDissolvedNutrientGeneration", "SednetParticulateNutrientGeneration", "Simhyd", "Storage", "StorageDissolvedDecay",
+      "StorageParticulateTrapping", "StorageTrapAll", "Sum", "Surm", "USLEFineSedimentGeneration", "VariablePartition"] := rfl
+
+/-- every catalogue model is in exactly one of the two lists -/
+theorem hotStart_lists_cover :
+    ∀ n ∈ (catalogue (α := ℝ)).map (·.name), (n ∈ hotStartCatalogue.map (·.name)) ≠ (n ∈ hotStartExceptions) := by
+  rw [catalogue_names, hotStartCatalogue_names]
+  decide
+
+/-- **C06 / C14, hot-start continuity, every catalogue model but the five listed exceptions** (ℝ). -/
+theorem hotstart_catalogue : ∀ km ∈ hotStartCatalogue, HotStart km := by
+  intro km hkm
+  simp only [hotStartCatalogue, List.mem_cons, List.not_mem_nil, or_false] at hkm
+  rcases hkm with rfl | rfl | rfl | rfl | rfl | rfl | rfl | rfl | rfl | rfl | rfl | rfl | rfl | rfl | rfl | rfl | rfl | rfl | rfl | rfl | rfl | rfl | rfl | rfl | rfl | rfl | rfl | rfl | rfl | rfl | rfl | rfl | rfl | rfl | rfl | rfl
+  · exact hotstart_ApplyScalingFactor
+  · exact hotstart_BankErosion
+  · exact hotstart_BaseflowFilter
+  · exact hotstart_ClimateVariables
+  · exact hotstart_ComputeProportion
+  · exact C06.hotstart_ConstituentDecay
+  · exact hotstart_DeliveryRatio
+  · exact hotstart_DepthToRate
+  · exact hotstart_DynamicSednetGully
+  · exact hotstart_DynamicSednetGullyAlt
+  · exact hotstart_EmcDwc
+  · exact hotstart_FixedConcentration
+  · exact hotstart_FixedPartition
+  · exact C06.hotstart_GR4J_real
+  · exact hotstart_Gate
+  · exact hotstart_Input
+  · exact C06.hotstart_InstreamCoarseSediment
+  · exact C06.hotstart_InstreamParticulateNutrient
+  · exact C06.hotstart_Lag
+  · exact C06.hotstart_LumpedConstituentRouting
+  · exact C06.hotstart_Muskingum
+  · exact hotstart_PartitionDemand
+  · exact hotstart_PassLoadIfFlow
+  · exact hotstart_RatingCurvePartition
+  · exact hotstart_RunoffCoefficient
+  · exact hotstart_SednetDissolvedNutrientGeneration
+  · exact hotstart_SednetParticulateNutrientGeneration
+  · exact C06.hotstart_Simhyd
+  · exact C06.hotstart_Storage
+  · exact C06.hotstart_StorageDissolvedDecay
+  · exact C06.hotstart_StorageParticulateTrapping
+  · exact C06.hotstart_StorageTrapAll_real
+  · exact hotstart_Sum
+  · exact C06.hotstart_Surm
+  · exact hotstart_USLEFineSedimentGeneration
+  · exact hotstart_VariablePartition
 
 end OW.Props.C14
